@@ -12,1160 +12,2553 @@ Definition show_fres (r : fres) : string :=
   end.
 Definition check (rs : list rune) : string := digest (show_fres (format_res rs)).
 Definition full (rs : list rune) : string := show_fres (format_res rs).
-Eval vm_compute in ("<<<M1632>>>" ++ check (runes_of_ascii "
-root
-
-    packet
-
-zchar  { repeatCount // a // b
-@lengthOf(
-	asx)
-
-, match
-
-    string_
-as
-	o 	 // @lengthOf(
-  {
-7  :packetx  ,
-
-    7
-:Pad
-
-}
-, 	 // packet A { u8 x, }
-	zchar[65535 
-]
-T@calculatedFrom(	/// triple
-""" ++ [128512]%N ++ runes_of_ascii """	) ,
-
-tag  @lengthOf( 	 // " ++ [27880; 37322]%N ++ runes_of_ascii "
-		u ) `crlf
-line`
-,@calculatedFrom( 
-
-// " ++ [128512]%N ++ runes_of_ascii " emoji
-  """")  _x
-	@calculatedFrom( // @lengthOf(
-
-""a	b""  )
-	`// not a comment`
-,match	Z9_ 
-as 
-float {  0123456789:calculatedFrom ,
-
-    ""{,}""
-
-    : u	//	t
-
-} ,@leftPad( ) @tag(255)@lengthOf(
-i8i8
-
-)match
-	tag
-    as trueish{ 
-4294967296
-
+Eval vm_compute in ("<<<M125>>>" ++ check (runes_of_ascii "root packet u{ zchar[ 00] body , @lengthOf( o ) match
+u as u{
+    ""\" ++ [233]%N ++ runes_of_ascii """ : Z9_
+    //x
+    [/// triple
+65535 ,
+255 , ""x y"" ] // a // b
 :
+chars,
+0123456789:float , } , }packet x_y_z {
+zchar[ 3 ]u
+    , @tag(
+    10 ) zchar[ 4294967296 ]  body // @lengthOf(
+`tab	here` ,
+@lengthOf(Pad
+// a // b
+// @lengthOf(
+) repeat i64_ crc ,
+repeat
+    u16
+    msg_type,	@rightPad
+// @lengthOf(
+//	t
+(
+) char[]
+/// triple
+// @lengthOf(
+float //	t
+, @rightPad
+( )@leftPad
+( )repeat char[ 4294967296
+]options1 , repeat f64 _x`` , u64 string_//
+,	} root packet packetx
+{int32 i8i8 @calculatedFrom( ""\" ++ [233]%N ++ runes_of_ascii """
+// a // b
+// trailing space 
+)
+    `100% of %d`
+// " ++ [128512]%N ++ runes_of_ascii " emoji
+// " ++ [128512]%N ++ runes_of_ascii " emoji
+, @tag( 1 ) @lengthOf( // " ++ [128512]%N ++ runes_of_ascii " emoji
+i64_ )
+    @calculatedFrom( ""x y""
+    )
+// `tick` ""quote"" 'q'
+//	t
+char[
+    0123456789
+    ]
+rootA @calculatedFrom(
+""// no comment"" )
+    `" ++ [28040; 24687; 31867; 22411]%N ++ runes_of_ascii "` ,u32
+T @lengthOf(x )
+    `it's`, char MetaDataX/// triple
+, } packet
+/// triple
+// `tick` ""quote"" 'q'
+Header {@calculatedFrom(
+""`tick`""  )
+    @tag( 3) x crc,
+    @calculatedFrom( ""it's"" )
+u16 Z9_
+`" ++ [28040; 24687; 31867; 22411]%N ++ runes_of_ascii "` ,	@calculatedFrom(
+""`tick`"")
+As , // c
+@leftPad //	t
+( )
+    // trailing space 
+    u128  @calculatedFrom(
+    """ ++ [28040; 24687]%N ++ runes_of_ascii """ ) , @calculatedFrom(""// no comment""// trailing space 
+)
+repeat
+As { body {
+repeat f32a
+{ match Z9_ as
+BodyLength
+    { ""it's"" : Logon }
+//x
+//
+,
+    char[ 65535 ] pack,
+Packet @calculatedFrom( // `tick` ""quote"" 'q'
+""a\\"") , char[] _x @calculatedFrom( """") , } , } ,} ,
+    @tag(
+65535
+    )
+@calculatedFrom(//
+""abc"" )@calculatedFrom( ""`tick`"" )
+    BodyLength {	crc matchKey,	asx ,
+    match /// triple
+repeatCount //	t
+as
+int{
+""1""
+:Logon
+,
+},
+asx
+    {repeat
+_x ,
+x Foo
+`" ++ [233]%N ++ runes_of_ascii "` ,
+repeat// c
+zchar[42 ]A
+    , u16
+lengthOf `100% of %d`
+, }
+    // `tick` ""quote"" 'q'
+    ,
+    // a // b
+    } ,
+@rightPad (' ' )
+    match  Z9_ as i64_ {
+    //	t
+    1 :
+// 50% %s
+// trailing space 
+Header ,	""\n"": lengthOf  , } , string_ {  repeat char[ 255 // c
+] Pad
+    , }  ,
+    float32
+    leftPad @calculatedFrom( ""a\\"" )  , }
+packet
+calculatedFrom // c
+{}
+")).
+Eval vm_compute in ("<<<M3562>>>" ++ check (runes_of_ascii "root packet MetaDataX {
+    @lengthOf(u128)
+    @rightPad(' ')
+    @calculatedFrom(""" ++ [233]%N ++ runes_of_ascii "t" ++ [233]%N ++ runes_of_ascii """)
+    T @lengthOf(Foo),
+    calculatedFrom pack,
+    @tag(65535)
+    Header `100% of %d`,
+    @rightPad(' ')
+    tag T `tab	here`,
+    @tag(65535)
+    crc @lengthOf(BodyLength) `// not a comment`,
+    @calculatedFrom(""CRC32"")
+    repeat i16 i64_,
+    @calculatedFrom(""// no comment"")
+    @calculatedFrom(""CRC32"")
+    zchar[007] u `say ""hi""`,
+    @tag(3)
+    // a // b
+    i8 pack @calculatedFrom(""\n"") `doc`,
+}
 
-uint8x ,  [  //x
+root packet Logon {
+    @lengthOf(len)
+    x_y_z @lengthOf(MetaDataX),
+    // 50% %s
+}
+
+// @lengthOf(
+// " ++ [27880; 37322]%N ++ runes_of_ascii "
+packet u128 {
+    /// triple
+    @tag(0)
+    A rootA `" ++ [28040; 24687; 31867; 22411]%N ++ runes_of_ascii "`,
+    @calculatedFrom(""it's"")
+    match calculatedFrom as crc {
+        4294967296 : charz,
+        [4294967296] : As,
+        4294967296 : metadata,
+        // " ++ [128512]%N ++ runes_of_ascii " emoji
+        [""{,}"", 255, 65535, ""x y"", """ ++ [28040; 24687]%N ++ runes_of_ascii """] : _x,
+        ""1"" : i8i8,
+        007 : len,
+    },
+    @lengthOf(lengthOf)
+    match chars as Pad {
+        10 : string_,
+        007 : chars,
+    },
+    body {
+        float64 uint8x `crlf
+        line`,
+        i64 a1 `crlf
+        line`,// c
+    },
+    @calculatedFrom(""a\\"")
+    repeat char[1] len `doc`,
+    repeat zchar[42] Foo `// not a comment`,
+}
+
+packet leftPad {
+    char[42] leftPad @calculatedFrom("""") `{ , }`,
+    falsey repeatCount,
+    int8 float @lengthOf(matchKey) `doc`,
+    @tag(10)
+    match roots as As {
+        [
+            00, ""a\""b"", 7, ""\n"", 255,
+            ""abc"", """", """ ++ [128512]%N ++ runes_of_ascii """
+        ] : body,
+        007 : Header,
+        [""" ++ [233]%N ++ runes_of_ascii "t" ++ [233]%N ++ runes_of_ascii """, 42, 255] : Pad,
+        [65535, ""{,}"", 1] : falsey,
+        7 : u8x,
+    },
+    @calculatedFrom(""abc"")
+    @tag(00)
+    char[7] len,// trailing space 
+    repeat u32 leftPad,
+}")).
+Eval vm_compute in ("<<<M280>>>" ++ check (runes_of_ascii "packet i8i8 {// packet A { u8 x, }
+match /// triple
+float
+as x_y_z { """" :
+u128 // trailing space 
+} ,
+@calculatedFrom(	""packet"" ) repeat
+char[
+// " ++ [27880; 37322]%N ++ runes_of_ascii "
+// " ++ [128512]%N ++ runes_of_ascii " emoji
 65535
 ]
-
-    : u8x , 10 :
-
-i64_ , """"	: metadata
-	}
-,  int64
-T ,  }
-    root packet len
-
-    { @tag(
-0 )
-Logon  , 
-@tag(
+uint8x ,	@rightPad (
+    ' ' ) leftPad `doc` ,tag @calculatedFrom(// `tick` ""quote"" 'q'
+""x y"" //
+) `// not a comment` , @leftPad(' ' ) zchar[
+    00 ]int
+    `" ++ [28040; 24687; 31867; 22411]%N ++ runes_of_ascii "`
+,}  root packet pack
+// " ++ [128512]%N ++ runes_of_ascii " emoji
+//
+{options1
+{
+rootA {char[ 42 ]
+//
+// @lengthOf(
+float
+    // `tick` ""quote"" 'q'
+    ,
+    char[ //	t
 255
-
-    ) repeat
-
-u64
-
-    packetx
-	`it's`	,
-
-    @tag(
-
-    4294967296
-
-    )
-zchar[  007
-]
-
-    repeatCount `a\`
-, char[ 4294967296
-
-] 
-
-// " ++ [128512]%N ++ runes_of_ascii " emoji
-
-	// packet A { u8 x, }
-	asx 
-@calculatedFrom( ""it's"" 
-) ,
-
-    }root
-
-    packet
-
-asx {
-    uint16 options1@lengthOf(matchKey
-
-    ) 
-`it's`,
-}root  //
-	  packet Logon  {
-@lengthOf( 
-asx  )@calculatedFrom(
-
-    ""packet""  ) Z9_
-@calculatedFrom(	// " ++ [128512]%N ++ runes_of_ascii " emoji
-	""" ++ [28040; 24687]%N ++ runes_of_ascii """ )	, @tag(  007 
-    /// triple
-  )
-	zchar[0123456789
-]
-i64_
-
-    ,
-    msg_type
-`line1
-line2` ,repeat
-zchar[	007] Pad `
-` ,falsey {	chars
-lengthOf ``, match 
-Header
-    as
-
-lengthOf 
-{""" ++ [233]%N ++ runes_of_ascii "t" ++ [233]%N ++ runes_of_ascii """ 
-:falsey 42
-
-    : uint8x 
-, [ 007
-,  ""abc""
-,
-	// c
-	// a // b
-	  ""abc"" ,  ""a\\""
-    ,	65535// c
-  ,
-""a\""b""
-,42
-,  ""{,}""] 
-:
-charz
-	}  , int64 //x
-	Foo 	 // c
-  ,
-
-Z9_
-@lengthOf( int ) `it's`
-	,
-}
-
-,  @rightPad(
-)// trailing space 
-  string
-As
-
-    @calculatedFrom( """ ++ [28040; 24687]%N ++ runes_of_ascii """)
-,  
-      // c
-match matchKey 
-as	repeatCount
-{
-4294967296	:	msg_type	, """ ++ [28040; 24687]%N ++ runes_of_ascii """
-
-:
-	zchar 
-3
-
-    :u8x , """"
+    ] roots
+    // @lengthOf(
+    , // " ++ [128512]%N ++ runes_of_ascii " emoji
+repeat int64
+matchKey , // packet A { u8 x, }
+} // `tick` ""quote"" 'q'
+,Header , u8x  zchar `{ , }`	, }
+, match  x_y_z
+as
+options1 {""x y""
     :
-asx 
-// trailing space 
+    calculatedFrom ""x y"" :
+pack , [""x y"" , 1, 0,
+/// triple
 // `tick` ""quote"" 'q'
-	, }	, 
-} ")).
-Eval vm_compute in ("<<<M379>>>" ++ check (runes_of_ascii "options {
-    StringPrefixLenType = u16;
-    ArrayPrefixLenType = u16;
-}
-
-packet SampleBinary {
-    uint16 MsgType `" ++ [28040; 24687; 31867; 22411]%N ++ runes_of_ascii "`,
-    u16 BodyLenght @lengthOf(Body) `" ++ [28040; 24687; 20307; 38271; 24230]%N ++ runes_of_ascii "`,
-    match MsgType as Body {
-        1 : Logon,
-        2 : Logout,
-        3 : Heartbeat,
-        4 : RiskControlRequest,
-        5 : RiskControlResponse,
-    },
-    @calculatedFrom(""CRC32"")
-    u32 Ckecksum `" ++ [26657; 39564; 21644]%N ++ runes_of_ascii "`,
-}
-
-packet Logon {
-    @leftPad('0')
-    char[10] UserName `" ++ [29992; 25143; 21517]%N ++ runes_of_ascii "`,
-    string Password `" ++ [23494; 30721]%N ++ runes_of_ascii "`,
-    uint64 ClientId `" ++ [23458; 25143; 31471]%N ++ runes_of_ascii "ID`,
-    u16 HeartbeatInterval `" ++ [24515; 36339; 38388; 38548]%N ++ runes_of_ascii "`,
-}
-
-packet Logout {
-    @rightPad('0')
-    char[10] UserName `" ++ [29992; 25143; 21517]%N ++ runes_of_ascii "`,
-    uint64 ClientId `" ++ [23458; 25143; 31471]%N ++ runes_of_ascii "ID`,
-}
-
-packet Heartbeat {
-}
-
-packet RiskControlRequest {
-    string UniqueOrderId `" ++ [21807; 19968; 35746; 21333; 21495]%N ++ runes_of_ascii "`,
-    char[16] ClOrdID `" ++ [23458; 25143; 35746; 21333; 21495]%N ++ runes_of_ascii "`,
-    char[3] MarketID `" ++ [24066; 22330]%N ++ runes_of_ascii "id`,
-    char[12] SecurityID `" ++ [35777; 21048; 20195; 30721]%N ++ runes_of_ascii "`,
-    char Side `" ++ [20080; 21334; 26041; 21521]%N ++ runes_of_ascii "`,
-    char OrderType `" ++ [35746; 21333; 31867; 22411]%N ++ runes_of_ascii "`,
-    u64 Price `" ++ [20215; 26684]%N ++ runes_of_ascii "`,
-    u32 Qty `" ++ [25968; 37327]%N ++ runes_of_ascii "`,
-    repeat string ExtraInfo `" ++ [38468; 21152; 20449; 24687]%N ++ runes_of_ascii "`,
-    repeat SubOrder {
-        char[16] ClOrdID `" ++ [23376; 35746; 21333; 21495]%N ++ runes_of_ascii "`,
-        u64 Price `" ++ [23376; 35746; 21333; 20215; 26684]%N ++ runes_of_ascii "`,
-        u32 Qty `" ++ [23376; 35746; 21333; 25968; 37327]%N ++ runes_of_ascii "`,
-    },
-}
-
-packet RiskControlResponse {
-    string UniqueOrderId `" ++ [21807; 19968; 35746; 21333; 21495]%N ++ runes_of_ascii "`,
-    i32 Status `" ++ [29366; 24577]%N ++ runes_of_ascii "`,
-    string Msg `" ++ [32467; 26524; 20449; 24687]%N ++ runes_of_ascii "`,
-    repeat Detail,
-}
-
-packet Detail {
-    string RuleName `" ++ [35268; 21017; 21517; 31216]%N ++ runes_of_ascii "`,
-    u16 Code `" ++ [21407; 22240; 20195; 30721]%N ++ runes_of_ascii "`,
-}")).
-Eval vm_compute in ("<<<M1782>>>" ++ check (runes_of_ascii "options{ StringPrefixLenType = u16 ;ArrayPrefixLenType =
-
-u8
-	;	FixedStringPadFromLeft
-=
-	true
-
-    ;
-
-FixedStringPadChar  = ' ' ;
-    } packet
-
-    Quote
-
-{	int64 OrderId ,
-    char[]  Ref ,
-	@leftPad(
-	'0'
-
+""\" ++ [233]%N ++ runes_of_ascii """ ,	4294967296 ,
+    ""a	b"" ,42 ,
+0123456789]
+: lengthOf ,	4294967296 :
+    len ,
+} ,asx@lengthOf( // " ++ [27880; 37322]%N ++ runes_of_ascii "
+Header ) , match
+float as calculatedFrom {3 : T,
+    """ ++ [28040; 24687]%N ++ runes_of_ascii """
+    // trailing space 
+    :// @lengthOf(
+uint8x
+255: Packet
+,}// " ++ [128512]%N ++ runes_of_ascii " emoji
+, repeat char[] Header , } packet
+u128 {
+    @calculatedFrom(
+//	t
+//	t
+""" ++ [233]%N ++ runes_of_ascii "t" ++ [233]%N ++ runes_of_ascii """ ) @lengthOf( calculatedFrom	)	zchar	, @lengthOf( Packet )
+    lengthOf @calculatedFrom(
+//x
+// 50% %s
+""\n"" ) ``,
+@rightPad //	t
+() char[ 0123456789
+]	float
+,@lengthOf( options1) @tag(
+7
+    // c
     )
-char[5
-
-    ]	price	, }
-packet
-Heartbeat{ zchar[ 3]
-venue,	string Flags  , 
-}
-	packet Trade
-{repeat  InTag787
-{ 
-i32 
-venue 
-,
-
-char[
-
-    5]
-
-sym
-	,
-repeat InPx98{
-char[
-
-    11 ]Qty 
-,
-    Heartbeat , char[]  price	,u32 x, float64 
-count
-    ,
-
-    repeat Quote
-
-, },zchar[ 7]  Note , repeat char[
-	1
-	]
-Tail 
-,
-	}
-	,repeat
-    char[2 ]
-    seqNo
-
-    ,
-    InTail55 { repeat  Quote
-	,string
-	msgKind 
-,
-InPx18 { 
-char[]	count
-, repeat Quote , 
+@tag(007 ) crc int,}  packet i64_{
+    // c
+    @tag( 7) repeat string Logon  , @tag( 1) u32 metadata @lengthOf( rootA),} 	 ")).
+Eval vm_compute in ("<<<M883>>>" ++ check (runes_of_ascii "packet  chars{ char[255
+] Header , @leftPad ( '0' ) repeat i64_ { zchar @lengthOf( Foo) ,} , charz // packet A { u8 x, }
+{ // packet A { u8 x, }
+float64 packetx ,  o { char[	255 ] tag @calculatedFrom( ""CRC32"" ) `// not a comment`	,
+    MetaDataX
+    @calculatedFrom(
+"""" )
+    , } ,
+    calculatedFrom{ zchar[ 3 ]
+i8i8	@calculatedFrom( ""{,}"" ) , repeat
+    packetx As ,
+    repeat	leftPad {
+    repeat u16 // @lengthOf(
+packetx
+// packet A { u8 x, }
+// " ++ [27880; 37322]%N ++ runes_of_ascii "
+`" ++ [28040; 24687; 31867; 22411]%N ++ runes_of_ascii "`
+    ,repeat zchar[ 0123456789// @lengthOf(
+] i64_ , }
+    /// triple
+    , }, // " ++ [128512]%N ++ runes_of_ascii " emoji
+int16 As @calculatedFrom( """ ++ [128512]%N ++ runes_of_ascii """
+    ), } , @calculatedFrom( """ ++ [233]%N ++ runes_of_ascii "t" ++ [233]%N ++ runes_of_ascii """ ) repeat zchar[ 7
+//x
+//x
+] options1 `{ , }`  , } MetaData
+//	t
+// @lengthOf(
+crc { roots u `line1
+line2` ,
 uint16
-	Qty, }
-
-,
-char[4
-]
-    seqNo	,
-    repeat  Heartbeat
-
-    ,repeat
-	string 
-sym
-
-    , }
-
-,repeat
-	Quote,
-
-Heartbeat
-,
-    @leftPad  (	' '	)	char[
-	10]OrderId 
-,
-
-} root 
-packet Fill
-	{
-	Heartbeat  ,uint32
-	count  , u8
-	OrderId
-,match OrderId 
-as Body
-
-{
-96:
-    Quote
-, 195 :Trade  ,187 :Heartbeat	, }
-
-,
-u32 
-venue @calculatedFrom(  ""CRC32"" )
-,
-
-    }
+    // trailing space 
+    int ,
+    /// triple
+    } root packet  Packet {  T{ char[
+007
+    // " ++ [128512]%N ++ runes_of_ascii " emoji
+    ]
+A
+    , repeat
+leftPad tag,}, @leftPad // @lengthOf(
+()
+@tag( // a // b
+42 )@lengthOf( u128) repeat metadata,  repeat zchar[007]
+crc
+`u8 x,`,
+@calculatedFrom( ""{,}"" )
+match
+o as falsey  {// a // b
+[ 0 ,
+1 , // @lengthOf(
+""\n"" // packet A { u8 x, }
+, 10
+    ,
+42, 7 , ""1"" ] : MetaDataX  ,
+0// trailing space 
+:
+    metadata ,""{,}"" : Logon, ""1"" : float 0123456789
+: a1
+,007 : _x }
+    , // " ++ [27880; 37322]%N ++ runes_of_ascii "
+repeat
+    As //
+, } packet string_
+{}
 ")).
-Eval vm_compute in ("<<<M287>>>" ++ check (runes_of_ascii "
-root packet	Foo {
-Packet
+Eval vm_compute in ("<<<M705>>>" ++ check (runes_of_ascii "root packet
+    pack {}  packet Z9_	{
+u64 BodyLength ,
+    @calculatedFrom( ""// no comment""
+)@lengthOf(	tag  ) packetx `
+` ,// `tick` ""quote"" 'q'
+charz
+, @tag( 255 ) lengthOf { repeat calculatedFrom
 {
-u32 chars `{ , }`
-// a // b
-// " ++ [128512]%N ++ runes_of_ascii " emoji
-, zchar[ // " ++ [27880; 37322]%N ++ runes_of_ascii "
-255 ] Foo
-    , } , f32a @lengthOf( MetaDataX ) `doc` , As`say ""hi""`
-,  char[] crc @calculatedFrom( """ ++ [28040; 24687]%N ++ runes_of_ascii """
-)`say ""hi""` ,	int32 T//x
-`// not a comment` , @lengthOf( x )
-    //
-    pack
-{  match
-i8i8 as trueish
-    { ""x y"" : BodyLength, [
+// c
+// 50% %s
+char[]stringy `
+`, }
+,	repeat
+len `" ++ [233]%N ++ runes_of_ascii "` , string falsey `a\`,	repeat string
+x `tab	here`  ,
+    }, char[]roots ,char metadata
+, @leftPad(
+'\x00' ) @lengthOf(As ) Packet//
+@lengthOf(
+BodyLength )`" ++ [28040; 24687; 31867; 22411]%N ++ runes_of_ascii "`
+,	repeat lengthOf{
+// c
+//	t
+repeat
+MetaDataX u128`
+`
+    , repeat string  calculatedFrom , char len ,  float32 _x,}
+,match trueish as pack{ [ """"
+,
+""CRC32""
+, 3 , 00 ,
+    1 , 65535,
+""a\""b"" // c
+] : charz	,
+    }, }
+packet tag // a // b
+{ zchar[ 4294967296 ]
+    uint8x ,
+@tag(
+4294967296)
+    char[ // " ++ [128512]%N ++ runes_of_ascii " emoji
+0 ]  Pad `{ , }` ,// a // b
+repeatCount falsey
+    ,repeat uint64 _x , @calculatedFrom( ""// no comment"" ) repeat calculatedFrom ,
+repeat metadata
+    { repeat char trueish
+`{ , }` ,
+}  ,repeat
+charz
+roots
+, @tag( 00 )
+    //	t
+    u16 x `{ , }` ,
+// c
+//x
+@tag( 3 )
+@lengthOf(
+    metadata ) // packet A { u8 x, }
+@tag( 0123456789)
+repeat
+    u64 roots
+, //x
+repeat
+char[] MetaDataX ,
 // `tick` ""quote"" 'q'
 // packet A { u8 x, }
-""\n""
-    ,007,
-    ""// no comment"" ,
-//x
-// " ++ [128512]%N ++ runes_of_ascii " emoji
-42
+}
+")).
+Eval vm_compute in ("<<<M7>>>" ++ check (runes_of_ascii "
+packet stringy {
+    @tag( 3
+) @rightPad ( ) //x
+@lengthOf( charz ) i8i8
+@lengthOf(
+    // @lengthOf(
+    BodyLength )
+`line1
+line2` , msg_type @calculatedFrom( ""CRC32""
+    )
 ,
-""1"" , 65535// " ++ [128512]%N ++ runes_of_ascii " emoji
-,10 ] :
-    a1 ,[ ""{,}""
-]
-: metadata
-, ""a	b"" : As , }	,
-} ,
-match f32a	as
-    A
-    {""abc"": rootA
-    4294967296 : /// triple
-Z9_
-    // c
-    , [
-007 , ""a\""b""	, 00
-    , 42 ,
-1	,0123456789 ,""x y""
-] : Foo , }, char[ 7 ] i64_
-    `it's` , @lengthOf( pack ) repeat As , } MetaData
-charz	{ u64 asx, } packet x { }MetaData MetaDataX{A a1
-    // " ++ [128512]%N ++ runes_of_ascii " emoji
-    , char[]	x`a\` ,uint16 leftPad , }options
-{
-a1 =
-    42
-; BodyLength	= true
-;
-x_y_z =int16 } 	 ")).
-Eval vm_compute in ("<<<M1914>>>" ++ check (runes_of_ascii "options{LittleEndian
-    =
-
-    false
-    ; StringPrefixLenType
-    =
-
-    u8
-;
-
-ArrayPrefixLenType=u8 
-;
-    FixedStringPadFromLeft  =
-
-true 
-; 
-FixedStringPadChar
-=' '
-
-;}packet  Trade {
-
-    zchar[
-2  ]
-
-Side2
-,	i8 seqNo  ,}
-
-packet  Party
-
-{ uint32 price , }
-    packet Ack { 
-@rightPad	(  '\x00'	) char[ 6
-]  x
-	,repeat char[
-	4
-	]
-    Flags	,
-zchar[
-9
-]
-f1
-	,
-
-    }packet  Cancel{
-    Ack ,
     }
+packet a1 {
+repeat i32 x  , i16
+msg_type @calculatedFrom( ""it's""  ) `crlf
+line`, }  packet
+// a // b
+// @lengthOf(
+Z9_  {repeat asx
+    `100% of %d` ,int ,
+// " ++ [128512]%N ++ runes_of_ascii " emoji
+// " ++ [27880; 37322]%N ++ runes_of_ascii "
+@tag( 10) int16  Logon ,i64 roots `line1
+line2` , u64 Pad@calculatedFrom(  ""\" ++ [233]%N ++ runes_of_ascii """ )	,@leftPad
+// " ++ [27880; 37322]%N ++ runes_of_ascii "
+// a // b
+(
+) @leftPad ( ' ' ) @tag(007 )
+u
+@calculatedFrom(""" ++ [233]%N ++ runes_of_ascii "t" ++ [233]%N ++ runes_of_ascii """ ) `
+`
+,
+}	packet  asx {string i64_ @lengthOf( pack ) ,@tag(
+10)
+char[ 1 ]T  , repeat leftPad { repeat uint64 repeatCount ,
+int64
+// " ++ [27880; 37322]%N ++ runes_of_ascii "
+// trailing space 
+pack
+`it's` , repeat char[ 255  ] BodyLength, } ,
+// `tick` ""quote"" 'q'
+//	t
+@lengthOf( f32a ) calculatedFrom { roots//
+,
+match metadata as x_y_z
+// 50% %s
+// 50% %s
+{
+42
+:metadata
+[ ""\n""
+,""a\\""]:As [  0,"""" ,42 , 4294967296 ,""abc"" , ""CRC32"", ""a	b"" , 007 ]
+:falsey,
+[
+    ""a	b""
+, 7 ]
+: i64_// @lengthOf(
+,
+[ """ ++ [28040; 24687]%N ++ runes_of_ascii """
+,
+""{,}"" ,  65535 ,
+42 , ""{,}"" ,255 ,
+255
+    ]: string_/// triple
+,
+    7 // a // b
+: T }
+, } , }")).
+Eval vm_compute in ("<<<M4184>>>" ++ check (runes_of_ascii "
+MetaData
+    //x
+		float
+    {u8 uint8x,  
+  // @lengthOf(
+  	// packet A { u8 x, }
+  } options
+{  }
+
+    root
     packet
-Heartbeat 
-{ 
-string  Px	, string	Acct
-,
-f64 Side2 ,
-InQty24 
-{	i16
-    seqNo,
 
-    repeat  i32
-Flags 
+T 	 /// triple
+	{
+    u
 ,
-}	,
-    }root 
-packet Logon { Trade
-, i64 venue,  u32
-    x , u8 seqNo
-, match seqNo	as
+}
 
-    Body
+packet 
+x_y_z	// c
+	{@lengthOf(
+    T) 
+asx 
+lengthOf
+
+    `
+`
+    ,
+repeat
+f64
+// c
+    // a // b
+      metadata 
+,
+    char[ 4294967296 ]
+
+u8x ,
+	repeat  uint8
+	zchar ,// a // b
+  @tag(	0123456789 
+)  repeat 
+i64 
+_x 
+, u16
+    u 
+
+// `tick` ""quote"" 'q'
+
+,  match
+roots 
+as 
+Header
 
     {
-[ 
-1
-	, 164
-    ] :Ack
+
+007 : 
+zchar  
+      // packet A { u8 x, }
+	""it's""
+    :rootA, [
+	""it's""
+
     ,
-    31 
-:  Cancel ,23 :
-Heartbeat, 
-64	:
-Party , 
+	""\n""
+	,  ""x y"" ,00	,
+
+42
+
+    , ""it's"" 
+] :
+
+    len  , 0  : Z9_ , 	 //x
+    }
+
+,
+
+    match Logon
+
+    as falsey 
+{ 4294967296	:  T ""CRC32""
+
+:
+    u8x
+
+    ,
+[ """ ++ [28040; 24687]%N ++ runes_of_ascii """
+,""1""  ,	""it's"" ,  ""a\\"",  3,	4294967296 ,
+""" ++ [128512]%N ++ runes_of_ascii """ 
+    // " ++ [27880; 37322]%N ++ runes_of_ascii "
+// @lengthOf(
+    ,
+    ""CRC32""	]
+: _x,
+    [  ""// no comment""
+,  // trailing space 
+  0123456789 ,10	,	65535 ,
+    """ ++ [128512]%N ++ runes_of_ascii """]
+
+:	T ,42
+:
+lengthOf , 0
+:
+
+x_y_z	,
+    } ,
+match
+
+    crc as
+u8x
+{
+[
+
+42
+]	:repeatCount
+    0
+
+    : 
+calculatedFrom	, }	,
+	}
+")).
+Eval vm_compute in ("<<<M1316>>>" ++ check (runes_of_ascii "packet
+    Packet {  @lengthOf(
+    crc
+    ) // 50% %s
+repeat zchar[ 0123456789 ] charz, @lengthOf(
+len )
+    leftPad	x_y_z  , x{
+    string a1
+@lengthOf( Logon
+) ,
+}
+,@tag( 0
+    //
+    ) @lengthOf(u8x )@calculatedFrom( ""it's""	) string
+zchar
+`` ,
+}
+MetaData repeatCount
+    { } packet trueish { u64 o// " ++ [27880; 37322]%N ++ runes_of_ascii "
+@lengthOf(
+T )
+    ,
+repeat f64
+    BodyLength , int32	x @calculatedFrom(
+    ""1""
+    ),
+    @tag( 10) Z9_ `{ , }`
+    , f32a // trailing space 
+{
+    //x
+    repeat zchar[ 0123456789
+    ] A , repeat// trailing space 
+i64
+stringy
+    ,//
+leftPad
+    //x
+    `tab	here`,
+} ,	}//
+packet
+u128
+{ match _x
+as // " ++ [128512]%N ++ runes_of_ascii " emoji
+MetaDataX {	[""x y"", 42	]
+: A
+    , } , // " ++ [128512]%N ++ runes_of_ascii " emoji
+@lengthOf( charz) charz
+    { match x_y_z
+as f32a { [007,// trailing space 
+10
+// @lengthOf(
+// `tick` ""quote"" 'q'
+, 42 , """ ++ [233]%N ++ runes_of_ascii "t" ++ [233]%N ++ runes_of_ascii """
+,
+0123456789/// triple
+]:x_y_z, 7: u128 ,""// no comment"" : repeatCount, // " ++ [128512]%N ++ runes_of_ascii " emoji
+""a\\"" :	int
+,""x y"":
+u128 } , } , i16
+chars @lengthOf(
+zchar
+)
+`it's` ,
+}	packet asx {}")).
+Eval vm_compute in ("<<<M773>>>" ++ check (runes_of_ascii "  root//x
+packet
+Packet {match x_y_z as
+    Header {[""abc"" ,
+    65535, 3] :tag , 10
+:
+    msg_type
+    ""`tick`""
+: stringy 4294967296 : Pad , } ,@calculatedFrom(
+""x y""
+    )
+    @tag(
+255 ) @lengthOf(body	) zchar[ 65535 ] Pad `say ""hi""` ,@calculatedFrom(""abc"" ) char[]leftPad @calculatedFrom(""`tick`"" // `tick` ""quote"" 'q'
+)`" ++ [233]%N ++ runes_of_ascii "` , }// trailing space 
+packet  x_y_z { i64_ , u32 As
+    @lengthOf( string_ // " ++ [128512]%N ++ runes_of_ascii " emoji
+) ,@tag( 0) x_y_z
+As
+, @lengthOf( falsey )@calculatedFrom( ""\" ++ [233]%N ++ runes_of_ascii """)u8
+    string_ , char[
+    7]_x `crlf
+line` ,i8 trueish
+@lengthOf( x)
+,
+// packet A { u8 x, }
+// packet A { u8 x, }
+} MetaData
+int { } packet As
+{ @leftPad ('\x00'
+)f64
+trueish
+    // `tick` ""quote"" 'q'
+    @calculatedFrom( """ ++ [28040; 24687]%N ++ runes_of_ascii """ ) , repeat string roots /// triple
+,repeat leftPad
+    // @lengthOf(
+    As
+`" ++ [28040; 24687; 31867; 22411]%N ++ runes_of_ascii "` ,
+repeat int32 As
+    `// not a comment`
+    ,
+    @rightPad (
+' ' ) @rightPad //
+( ' ' )
+/// triple
+// @lengthOf(
+char[	10] Z9_ ,}
+")).
+Eval vm_compute in ("<<<M3813>>>" ++ check (runes_of_ascii "options {
+    crc = 42
+    a1 = ""\" ++ [233]%N ++ runes_of_ascii """;
+}
+
+packet x_y_z {
+    int32 u @calculatedFrom(""""),
+    trueish {
+        match zchar as i8i8 {
+            0123456789 : int,
+            [
+                ""`tick`"", ""{,}"", """ ++ [28040; 24687]%N ++ runes_of_ascii """, ""// no comment"", 0,
+                65535, 3
+            ] : u8x,
+            0123456789 : calculatedFrom,
+        },
+        repeat string trueish,
+        matchKey {
+            repeat charz,
+            metadata @calculatedFrom(""it's"") `two words`,
+        },
+    },
+    // " ++ [128512]%N ++ runes_of_ascii " emoji
+    repeat string Pad,
+    @calculatedFrom(""a\\"")
+    @calculatedFrom(""" ++ [128512]%N ++ runes_of_ascii """)
+    repeat rootA {
+        f32 Logon `100% of %d`,
+        zchar[4294967296] len @calculatedFrom(""// no comment""),
+    },
+}
+
+packet Packet {
+    msg_type,// packet A { u8 x, }
+    trueish {
+        roots @calculatedFrom(""a\\""),
+    },
+    // a // b
+    // trailing space 
+    repeat zchar,
+    u16 i8i8,
+}")).
+Eval vm_compute in ("<<<M631>>>" ++ check (runes_of_ascii "root packet leftPad
+    { repeat zchar[ 1 ]Foo	`crlf
+line` ,i8 lengthOf  , @tag( 3) repeat repeatCount`say ""hi""` // @lengthOf(
+,
+    match repeatCount as BodyLength { // 50% %s
+""1"" : metadata , ""1""  :
+i64_ ,
+[  7
+    ,	""\n"" ,
+""{,}"" ,	1, ""a\""b"" ]	:
+i64_ , 7
+: i8i8 , } , @calculatedFrom( """"
+    ) u8 string_
+// trailing space 
+// " ++ [128512]%N ++ runes_of_ascii " emoji
+@calculatedFrom( """ ++ [28040; 24687]%N ++ runes_of_ascii """) ,
+float64
+// @lengthOf(
+//	t
+Z9_ ,x {
+repeat packetx
+    //	t
+    , int8 As// a // b
+`line1
+line2` ,
+    u128  { //	t
+char[] BodyLength @calculatedFrom(
+""a\""b""  )
+,
+repeat x_y_z {
+match options1 as charz { /// triple
+42
+    : int , 007 :
+    float , ""x y""
+: leftPad
+    , [ ""\" ++ [233]%N ++ runes_of_ascii """ ,
+1 ]
+// packet A { u8 x, }
+// `tick` ""quote"" 'q'
+: lengthOf, //	t
+}	,
+    } ,
 } ,
+    uint8x `{ , }` , } , lengthOf
+@lengthOf( zchar ) ,
+char[]
+    crc`// not a comment`  , } // @lengthOf(")).
+Eval vm_compute in ("<<<M3928>>>" ++ check (runes_of_ascii "root packet  len{	// a // b
+    char[ 0123456789 	 // " ++ [27880; 37322]%N ++ runes_of_ascii "
+	] pack  @calculatedFrom(
+    ""a\\""	) `say ""hi""`
+,
+
+    match
+Header
+    as trueish
+    {
+	[	""a\\""
+	, 255,007
+
+]:
+
+asx,
+} ,	match
+
+    Pad 
+as
+
+Foo	// `tick` ""quote"" 'q'
+{ ""\n"" :uint8x
+
+1
+
+    : lengthOf
+
+, 65535 : u128 ,}	,
+}packet tag
+    {
+	o  rootA	`` ,
+	}root  packet
+    tag{
+uint8x , @lengthOf(
+int
+	)// 50% %s
+	  @tag(	0
+)	Pad, 
+
+// packet A { u8 x, }
+// 50% %s
+    u8 
+x
+    , @lengthOf(
+	Z9_	) 
+f32 BodyLength `tab	here`
+	,  repeat
+char[
+
+    255
+]f32a ,
+repeat
+
+msg_type 
+lengthOf
+
+,	@leftPad
+    ( '\x00' )repeat int32
+	asx ,
+repeat
+	string
+
+f32a ,
+    @leftPad ( )  len Foo  ,	} // trailing space 
+packet
+uint8x{ 
+calculatedFrom  
+      // 50% %s
+,
+/// triple
+// trailing space 
+	}	MetaData
+    asx { // c
+	} ")).
+Eval vm_compute in ("<<<M303>>>" ++ check (runes_of_ascii "packet matchKey {
+pack { repeat i32 body
+    , string
+/// triple
+// 50% %s
+crc
+    @lengthOf(
+As  )
+, } , @lengthOf( len )repeat f64 u// @lengthOf(
+, uint8 matchKey
+    ,/// triple
+@lengthOf(Logon )int32
+a1  `crlf
+line` ,A@lengthOf( msg_type/// triple
+)
+,@leftPad ( ' ') asx@lengthOf( tag
+    ), u32 crc
+`u8 x,` ,//x
+char[] Header`// not a comment`// packet A { u8 x, }
+,
+@rightPad (' ' ) repeat A`a\`	,
+}packet repeatCount
+    {  } packet lengthOf
+//
+// @lengthOf(
+{
+// a // b
+// c
+match As
+//	t
+// `tick` ""quote"" 'q'
+as
+    asx
+{ ""CRC32"" : rootA
+    ,
+""a	b"" : packetx , } , }
+root
+    packet
+matchKey {
+    @leftPad (
+    '\x00') uint16
+trueish
+    @lengthOf( i64_ ) `{ , }`
+,	@lengthOf(	i64_	) int calculatedFrom ,@leftPad
+    //
+    ( '0' ) float64 body ,}")).
+Eval vm_compute in ("<<<M3997>>>" ++ check (runes_of_ascii "options{
+
+    LittleEndian =  false
+;
+
+    StringPrefixLenType=
+
+u32 ;
+	ArrayPrefixLenType	=
+u32; 
+FixedStringPadChar  =
+' ' ;
+
+    } 
+packet
+
+    Order
+{
+
+    InX16 {i64
+Tail,char[ 
+4
+] price  , repeat 
+char[
+    4 ]Qty ,
+    }
+,InSym89 
+{ int8
+
+x, char[
+8]	clOrdID ,
+
+    i32 tag7 
+,	char[  7]
+venue
+,
+
+    int64
+
+Ref  ,
+}
+,
+
+zchar[
+
+7 ] Flags ,
+}
+
+packet
+
+Logon {  zchar[3]
+sym ,  }
+    packet	Leg{ InCount34
+
+{
+	char[  10]OrderId
+	,
+
+}
+    ,
+
+    } packet  Party
+	{
+
+}
+root	packet
+
+    Ack {
+    repeat
+Leg
+,  char[
+
+    8
+]
+
+    Flags,u8
+    seqNo ,
+
+u16
+    Qty @lengthOf(  Body
+) 
+, match
+    seqNo
+
+as  Body {	21 
+:
+
+    Order
+
+    ,	56 : Logon  , 
+138:
+
+    Leg
+
+    , 
+73
+    :
+
+Party
+, },
+}
+
+")).
+Eval vm_compute in ("<<<M3460>>>" ++ check (runes_of_ascii "options {
+    LittleEndian = false;
+    StringPrefixLenType = u32;
+    ArrayPrefixLenType = u32;
+    FixedStringPadChar = ' ';
+}
+packet Order {
+    InX16 {
+        i64 Tail,
+        char[4] price,
+        repeat char[4] Qty,
+    },
+    InSym89 {
+        int8 x,
+        char[8] clOrdID,
+        i32 tag7,
+        char[7] venue,
+        int64 Ref,
+    },
+    zchar[7] Flags,
+}
+packet Logon {
+    zchar[3] sym,
+}
+packet Leg {
+    InCount34 {
+        char[10] OrderId,
+    },
+}
+packet Party {
+}
+root packet Ack {
+    repeat Leg,
+    char[8] Flags,
+    u8 seqNo,
+    u16 Qty @lengthOf(Body),
+    match seqNo as Body {
+        21 : Order,
+        56 : Logon,
+        138 : Leg,
+        73 : Party,
+    },
+}
+")).
+Eval vm_compute in ("<<<M716>>>" ++ check (runes_of_ascii "  packet asx
+{  repeat lengthOf {f32 matchKey `" ++ [28040; 24687; 31867; 22411]%N ++ runes_of_ascii "`, } , @leftPad
+( ) match
+a1
+    as asx { [ ""\" ++ [233]%N ++ runes_of_ascii """ ,10
+    , ""it's""
+, ""a\\""]
+/// triple
+// trailing space 
+: metadata ,
+[
+42	]:
+    crc , 42 :	metadata , 10 :
+// c
+/// triple
+_x ,} , @lengthOf( options1 )
+match pack as len { 7
+:
+    Z9_  ,
+    // packet A { u8 x, }
+    0
+: i64_
+, 65535: u8x ,  4294967296 :
+    packetx,	[
+""x y""  ,
+/// triple
+// @lengthOf(
+""packet"" , ""CRC32"", 00  ,  1,
+00
+    // a // b
+    , ""CRC32"" ]
+    :T ,
+}, @rightPad (' ' )
+@leftPad
+    ( '\x00' )
+@tag( 00
+    ) i32 pack, @leftPad ('0' )	lengthOf @calculatedFrom(""\n""
+)
+    , uint64 float `100% of %d` , }
+    // trailing space 
+    options { }")).
+Eval vm_compute in ("<<<M370>>>" ++ check (runes_of_ascii "root packet matchKey {packetx  { repeat
+char[] _x ,}  ,repeat int32  pack
+    `say ""hi""` , repeat i8i8 x , @leftPad (
+'0' ) match a1 as pack { 00 :
+    zchar } ,
+    @tag(  007 ) repeat repeatCount
+    pack , @tag(
+4294967296
+) repeat rootA {	Pad
+    , stringy
+{ T
+MetaDataX
+,repeat roots{repeat
+char[
+4294967296] float
+    `it's` ,
+    }  , zchar[
+255 ] u128  @lengthOf( asx  )
+, repeat crc
+    { char[4294967296 ]stringy, } ,} ,
+match
+Pad
+    // " ++ [128512]%N ++ runes_of_ascii " emoji
+    as	options1{
+007: msg_type ,
+[ 7
+] : Z9_ , 1 :T [""" ++ [128512]%N ++ runes_of_ascii """ ]
+: zchar [ 007, 0 ] :
+    BodyLength
+""" ++ [128512]%N ++ runes_of_ascii """:
+msg_type  , } , f32
+uint8x , } // trailing space 
+, }
+    root //
+packet falsey { }
+")).
+Eval vm_compute in ("<<<M3866>>>" ++ check (runes_of_ascii "MetaData pack {
+    char[10] _x,
+    calculatedFrom MetaDataX `" ++ [233]%N ++ runes_of_ascii "`,/// triple
+    int32 pack,
+    i16 lengthOf `doc`,
+    a1 u ``,
+    char[255] T,
+}
+
+/// triple
+MetaData stringy {
+    T falsey `say ""hi""`,
+    char[7] leftPad `" ++ [233]%N ++ runes_of_ascii "`,
+}
+
+root packet packetx {
+    char[42] u,
+    i32 tag @calculatedFrom(""abc"") `" ++ [233]%N ++ runes_of_ascii "`,// " ++ [27880; 37322]%N ++ runes_of_ascii "
+    u8 calculatedFrom `say ""hi""`,
+    repeat _x ``,
+    repeat leftPad falsey,
+    i8i8 {
+        string T `line1
+                line2`,
+    },
+}
+
+MetaData T {
+    _x msg_type,
+    char[007] trueish,
+    char[] lengthOf `two words`,
+    char[] zchar `line1
+        line2`,
+    metadata uint8x `" ++ [233]%N ++ runes_of_ascii "`,
+    // " ++ [27880; 37322]%N ++ runes_of_ascii "
+}")).
+Eval vm_compute in ("<<<M3548>>>" ++ check (runes_of_ascii "MetaData x_y_z {
+    // " ++ [128512]%N ++ runes_of_ascii " emoji
+    char[1] Pad,
+}
+
+packet _x {
+    o,//
+    repeat int8 MetaDataX,
+    zchar[42] Z9_,
+    @leftPad('\x00')
+    uint64 string_ `tab	here`,
+    int16 T,
+    @lengthOf(matchKey)
+    char crc @lengthOf(asx),
+    @rightPad('0')
+    x_y_z `line1
+    line2`,
+}
+
+options {
+    roots = char[4294967296];
+}
+
+packet string_ {
+    packetx @lengthOf(_x),
+    repeatCount @calculatedFrom(""a	b""),
+    // 50% %s
+    // @lengthOf(
+    match Header as pack {
+        ""it's"" : zchar,
+    },
+    @lengthOf(trueish)
+    @rightPad()
+    @lengthOf(Z9_)
+    u8 trueish,
+}
+
+MetaData T {
+}
+// " ++ [27880; 37322]%N)).
+Eval vm_compute in ("<<<M3523>>>" ++ check (runes_of_ascii "  root
+    packet	// c1
+  Frame 	 // c2
+{u8
+K, // c6
+  Logon
+
+// c7
+  	first 
+        // c8
+  , // c9a
+	// c9b
+    match 
+	    // c10
+	K// c11
+    as // c12a
+    // c12b
+	Body
+
+{
+	// c14
+1 	 // c15a
+
+// c15b
+  : 	 // c16
+	Logon	// c17
+, 2 
+        // c19
+    :// c20
+  Logout // c21a
+    // c21b
+	, // c22a
+
+// c22b
+	}  // c23a
+  // c23b
+    ,// c24
+    }
+    packet  
+  // c26
+    Logon // c27
+  { // c28a
+    // c28b
+      string  
+      // c29
+	user// c30
+	,	// c31a
+
+	// c31b
+
+  }packet  Logout // c34
+	{
+    // c35
+    	u16 	 // c36
+  reason
+    // c37
+
+	, }")).
+Eval vm_compute in ("<<<M49>>>" ++ check (runes_of_ascii "packet uint8x // 50% %s
+{ char[]
+crc`" ++ [233]%N ++ runes_of_ascii "`
+,
+u8 //x
+BodyLength`crlf
+line` , @tag(65535 )
+@calculatedFrom( ""packet"" ) uint8x {
+lengthOf
+{ match
+u8x as msg_type  {
+    ""{,}"" : metadata
+, 4294967296 : float ,10 :
+a1 ,	65535 : len, """ ++ [128512]%N ++ runes_of_ascii """
+: zchar ,[
+""" ++ [128512]%N ++ runes_of_ascii """ ]
+    :
+Pad	,} , zchar[ 42 ] leftPad , f64/// triple
+crc ,
+    u64
+A@calculatedFrom( ""CRC32"" ) , }
+    , }
+, @lengthOf(
+crc) repeat
+u128 Pad
+    , stringy
+    trueish`say ""hi""`
+,
+As matchKey  ,@tag( 10 )
+    charz @calculatedFrom( ""it's"") // trailing space 
+, // " ++ [128512]%N ++ runes_of_ascii " emoji
+@rightPad (
+' ' ) a1 float	,
+}
+")).
+Eval vm_compute in ("<<<M339>>>" ++ check (runes_of_ascii "// a // b
+packet i8i8	{}
+    packet calculatedFrom
+{ @calculatedFrom(  """ ++ [28040; 24687]%N ++ runes_of_ascii """ ) @lengthOf(
+T
+    // 50% %s
+    )@rightPad ( ' '
+)repeat
+    chars
+    // packet A { u8 x, }
+    { string_
+{ repeat metadata BodyLength
+`tab	here` ,
+char[]
+    x `u8 x,`
+    ,  } , uint32 lengthOf , //	t
+pack options1 `100% of %d`//
+, } , int64 Pad`100% of %d` , @lengthOf(tag ) repeat	uint64
+falsey,
+//x
+// 50% %s
+@leftPad
+    ( '0'
+)	repeat u8x
+`
+` , i16 options1,int
+@calculatedFrom( """ ++ [28040; 24687]%N ++ runes_of_ascii """
+) ,// " ++ [128512]%N ++ runes_of_ascii " emoji
+char[ 1
+]
+T// `tick` ""quote"" 'q'
+`{ , }` , }
+")).
+Eval vm_compute in ("<<<M4229>>>" ++ check (runes_of_ascii "MetaData asx {
+    char[00] u8x,
+    trueish tag `it's`,
+}
+
+root packet i64_ {
+    repeat repeatCount msg_type,
+    char[7] asx,
+}
+
+options {
+    BodyLength = true;
+}
+
+packet x {
+    @tag(1)
+    @rightPad('\x00')
+    // trailing space 
+    @lengthOf(f32a)
+    int16 pack `
+    `,
+    repeat char[] options1,// c
+    string options1 @lengthOf(calculatedFrom) `" ++ [233]%N ++ runes_of_ascii "`,// @lengthOf(
+    @tag(1)
+    Packet string_,
+    As {
+        matchKey chars,
+    },
+    repeat string crc `// not a comment`,
+    repeat T,
+}
+//x")).
+Eval vm_compute in ("<<<M3793>>>" ++ check (runes_of_ascii "packet chars {
+    i8i8 @calculatedFrom(""a\""b"") `
+        `,
+    @lengthOf(Foo)
+    @lengthOf(roots)
+    @tag(255)
+    zchar[7] rootA @calculatedFrom("""") `" ++ [28040; 24687; 31867; 22411]%N ++ runes_of_ascii "`,
+}
+
+// packet A { u8 x, }
+//x
+packet u128 {
+    match calculatedFrom as i64_ {
+        007 : charz,
+        1 : u8x,
+        00 : stringy,
+        ""1"" : roots,
+        42 : Packet,
+    },
+    // " ++ [27880; 37322]%N ++ runes_of_ascii "
+    //	t
+    a1,
+    u ``,
+    @calculatedFrom(""`tick`"")
+    @leftPad('0')
+    repeat char[1] x,
+}
+
+options {
+    Z9_ = '0';
+}")).
+Eval vm_compute in ("<<<M82>>>" ++ check (runes_of_ascii "options
+    {f32a	= zchar[ 65535 ]	;
+//	t
+// trailing space 
+Logon
+    = // `tick` ""quote"" 'q'
+""1"" x_y_z /// triple
+=65535 u=
+    ""// no comment""
+    ; A = ""a\\""
+; } //	t
+root packet BodyLength { match	crc
+as charz { """ ++ [128512]%N ++ runes_of_ascii """ : matchKey, 0123456789 :
+T, ""it's"" // " ++ [27880; 37322]%N ++ runes_of_ascii "
+: f32a,
+7
+// `tick` ""quote"" 'q'
+// a // b
+: body , [ 7 ]  : x_y_z, }
+,  }
+    MetaData
+    string_ { len metadata `line1
+line2` ,
+    f64 calculatedFrom ,x_y_z x
+, char[ 0123456789] Header  , }
+")).
+Eval vm_compute in ("<<<M829>>>" ++ check (runes_of_ascii "packet
+Logon{ @lengthOf(  x ) @lengthOf( // trailing space 
+Packet  )  char[ 3// @lengthOf(
+] u8x ,  @lengthOf(trueish) repeat string asx, @tag(
+    4294967296) packetx `say ""hi""`/// triple
+,@calculatedFrom( // a // b
+""{,}"" )  repeat
+    i64_ ,	i64 uint8x
+    `doc` ,
+i64 float @lengthOf(
+calculatedFrom  ) ,
+// `tick` ""quote"" 'q'
+// " ++ [27880; 37322]%N ++ runes_of_ascii "
+@tag( //x
+10 )
+    match asx as body { """ ++ [128512]%N ++ runes_of_ascii """ : i8i8
+, 1
+    // c
+    : // `tick` ""quote"" 'q'
+zchar ,
+}, }")).
+Eval vm_compute in ("<<<M236>>>" ++ check (runes_of_ascii "packet string_ { // c
+matchKey
+@calculatedFrom(  ""it's""
+)  , @tag( 65535
+)
+    char[  255
+]stringy , @leftPad (' ')	@rightPad
+(
+'0' )  u64 leftPad
+    @calculatedFrom( // trailing space 
+""abc"" )
+, @calculatedFrom( """ ++ [233]%N ++ runes_of_ascii "t" ++ [233]%N ++ runes_of_ascii """ ) repeat
+u
+    //	t
+    , match
+string_ as packetx {
+    ""packet"" : Pad , 1
+    : metadata
+    ,	""`tick`"" // `tick` ""quote"" 'q'
+:a1 // 50% %s
+""" ++ [128512]%N ++ runes_of_ascii """ :charz ,
+} , repeat zchar[
+    10]	_x
+,
+    }
+")).
+Eval vm_compute in ("<<<M3598>>>" ++ check (runes_of_ascii "packet
+    metadata
+{  @calculatedFrom(""" ++ [128512]%N ++ runes_of_ascii """  //
+	) 
+    //
+	repeat
+chars	{
+
+    repeat falsey o
+
+    , int32	falsey	@calculatedFrom(
+""`tick`""
+)
+	,}	, }
+
+    options
+
+{	// packet A { u8 x, }
+  falsey =
+
+""1"";
+    matchKey=string
+
+;BodyLength
+	=
+
+    ""\" ++ [233]%N ++ runes_of_ascii """
+
+    ;	// " ++ [128512]%N ++ runes_of_ascii " emoji
+    calculatedFrom=true }
+packet Foo { 
+_x	falsey ,
+    string_ x_y_z
+`two words`
+
+,msg_type
+
+    body  `say ""hi""`
+, }
+")).
+Eval vm_compute in ("<<<M3854>>>" ++ check (runes_of_ascii "
+packet	//	t
+	len
+{
+	@leftPad
+(  ' '	) string_
+f32a
+
+, 
+// " ++ [128512]%N ++ runes_of_ascii " emoji
+// 50% %s
+} 
+      //x
+  // @lengthOf(
+  MetaData As
+
+{char[	42
+
+    ]
+	string_	`say ""hi""` ,i8	Logon
+,	MetaDataX f32a
+
+    , 
+} options
+{
+pack
+
+    = zchar[
+42  ]	; 
+x_y_z
+    = zchar[ 10  ]
+;int	=
+	""1"" 
+;
+
+    x_y_z	=  
+  // `tick` ""quote"" 'q'
+	  // `tick` ""quote"" 'q'
+
+	""packet"" matchKey
+=' '
+
+    }
+")).
+Eval vm_compute in ("<<<M1380>>>" ++ check (runes_of_ascii "MetaData u8x
+    {  u32
+metadata, } // packet A { u8 x, }
+MetaData calculatedFrom
+    // trailing space 
+    {
+    calculatedFrom repeatCount
+`// not a comment` ,
+roots// 50% %s
+options1 , zchar[	1
+] i8i8, // `tick` ""quote"" 'q'
+zchar[
+0123456789	] i8i8, i64 charz , u8 f32a, }  packet string_// c
+{ /// triple
+@calculatedFrom(
+""\" ++ [233]%N ++ runes_of_ascii """
+    ) repeat stringy`it's`
+    , }
+")).
+Eval vm_compute in ("<<<M1270>>>" ++ check (runes_of_ascii "// `tick` ""quote"" 'q'
+root packet
+pack  { @tag(
+    // " ++ [27880; 37322]%N ++ runes_of_ascii "
+    4294967296)
+    body
+    {zchar[ 00 ] A @lengthOf( Z9_
+    // @lengthOf(
+    ) , repeat char[
+    //
+    65535
+]
+f32a ,	zchar[ // packet A { u8 x, }
+10] //	t
+matchKey@calculatedFrom(
+""// no comment""
+) `crlf
+line`
+,
+body{ string
+charz @calculatedFrom( ""// no comment""  ) // c
+,
+} ,},
+}
+")).
+Eval vm_compute in ("<<<M4163>>>" ++ check (runes_of_ascii "root packet  u
+{
+	_x  @calculatedFrom(// " ++ [27880; 37322]%N ++ runes_of_ascii "
+      ""// no comment"") ,  @lengthOf(  // " ++ [27880; 37322]%N ++ runes_of_ascii "
+      i64_
+
+    )  char f32a	@calculatedFrom( // 50% %s
+		""`tick`""
+
+    )
+
+    ,	@tag(
+    007
+)	@lengthOf( 
+a1
+	)
+@leftPad(	' ' ) 
+	    /// triple
+    f32	_x `it's`	, @tag(
+65535	) zchar[
+0]
+
+i64_
+	@lengthOf( 
+options1 ) ,  } 
+// " ++ [128512]%N ++ runes_of_ascii " emoji
+")).
+Eval vm_compute in ("<<<M476>>>" ++ check (runes_of_ascii "
+packet // a // b
+rootA
+{
+} options {	} MetaData body { //x
+i8i8 //
+A, i16 Header ,
+calculatedFrom
+T,	char[] packetx
+`say ""hi""` ,
+    Foo uint8x , int64 Header`doc`
+    ,
+} MetaData
+packetx{ i64 string_ `say ""hi""`
+    ,uint8 calculatedFrom ,
+    a1
+MetaDataX
+,MetaDataX tag ,f64 u8x,  f64
+    asx, } // `tick` ""quote"" 'q'")).
+Eval vm_compute in ("<<<M189>>>" ++ check (runes_of_ascii "root
+// trailing space 
+// `tick` ""quote"" 'q'
+packet crc
+    /// triple
+    {
+@tag( 0123456789  ) repeat int64 o // 50% %s
+,  @calculatedFrom(
+    ""1"" ) match
+    // trailing space 
+    asx as
+pack {
+[ // " ++ [128512]%N ++ runes_of_ascii " emoji
+0 ,255,	4294967296 , ""x y""	,
+// " ++ [128512]%N ++ runes_of_ascii " emoji
+// packet A { u8 x, }
+""x y""
+    , 42 ] : u8x,
+    },
+}")).
+Eval vm_compute in ("<<<M4147>>>" ++ check (runes_of_ascii "packet falsey {
+    match x_y_z as Z9_ {
+        ""CRC32"" : metadata,
+        ""CRC32"" : u,
+        10 : Logon,
+        ""it's"" : repeatCount,
+        7 : options1,
+    },
+    @calculatedFrom(""a\\"")
+    zchar[0] zchar @calculatedFrom(""a\\"") `say ""hi""`,
+}
+
+MetaData matchKey {
+    u32 matchKey `doc`,
+}")).
+Eval vm_compute in ("<<<M4170>>>" ++ check (runes_of_ascii "MetaData T {
+    float32 pack ``,
+    i64_ i64_ `" ++ [233]%N ++ runes_of_ascii "`,
+    Packet o,
+    //	t
+    //
+    i64_ Logon,
+    As A,//
+}
+
+packet a1 {
+    @tag(0123456789)
+    match lengthOf as As {
+        ""a\\"" : repeatCount,
+        """ ++ [128512]%N ++ runes_of_ascii """ : x,
+        [65535, 42] : roots,
+        [10, 0] : lengthOf,
+    },
+}")).
+Eval vm_compute in ("<<<M935>>>" ++ check (runes_of_ascii "
+root
+    packet BodyLength	{ @tag(	65535 )
+zchar[
+7]	msg_type, MetaDataX
+    @calculatedFrom(
+    ""// no comment"" )
+    ,
+// packet A { u8 x, }
+// c
+} root packet
+    stringy {@tag(00 ) repeat pack leftPad // packet A { u8 x, }
+`tab	here`
+,repeat body ,  }MetaData a1 {  }")).
+Eval vm_compute in ("<<<M1619>>>" ++ check (runes_of_ascii "// 50% %s
+packet	a1
+    { zchar[
+// a // b
+// 50% %s
+007]
+T `it's`
+    ,@rightPad
+    // a // b
+    (
+'\x00')
+    o repeatCount , }  packet Logon {  repeat packet	Logon //x
+{ repeat // " ++ [128512]%N ++ runes_of_ascii " emoji
+uint16 u128
+    //
+    `a\`,
+falsey
+@calculatedFrom(""packet"" ) ,
+    } 	 ")).
+Eval vm_compute in ("<<<M1547>>>" ++ check (runes_of_ascii "// 50% %s
+packet	a1
+    { zchar[
+// a // b
+// 50% %s
+007]
+T T `it's`
+    ,@rightPad
+    // a // b
+    (
+'\x00')
+    o repeatCount , }  packet Logon {  }packet	Logon //x
+{ repeat // " ++ [128512]%N ++ runes_of_ascii " emoji
+uint16 u128
+    //
+    `a\`,
+falsey
+@calculatedFrom(""packet"" ) ,
+    } 	 ")).
+Eval vm_compute in ("<<<M1701>>>" ++ check (runes_of_ascii "// 50% %s
+packet	a1
+    { zchar[
+// a // b
+// 50% %s
+007]
+T `it's`
+    ,@rightPad
+    // a // b
+    (
+'\x00'%)
+    o repeatCount , }  packet Logon {  }packet	Logon //x
+{ repeat // " ++ [128512]%N ++ runes_of_ascii " emoji
+uint16 u128
+    //
+    `a\`,
+falsey
+@calculatedFrom(""packet"" ) ,
+    } 	 ")).
+Eval vm_compute in ("<<<M1658>>>" ++ check (runes_of_ascii "// 50% %s
+packet	a1
+    { zchar[
+// a // b
+// 50% %s
+007]
+T `it's`
+    ,@rightPad
+    // a // b
+    (
+'\x00')
+    o repeatCount , }  packet Logon {  }packet	Logon //x
+{ repeat // " ++ [128512]%N ++ runes_of_ascii " emoji
+uint16 u128
+    //
+    `a\`falsey
+,
+@calculatedFrom(""packet"" ) ,
+    } 	 ")).
+Eval vm_compute in ("<<<M130>>>" ++ check (runes_of_ascii "
+options
+    { falsey = '0'
+} options {i8i8=u16
+    ; roots = zchar[
+65535 ] ; roots // @lengthOf(
+= ""abc"" } //
+MetaData asx{ f32a u8x
+`it's` , float32 // @lengthOf(
+falsey , options1 lengthOf`// not a comment`
+,
+// trailing space 
+// packet A { u8 x, }
+}
+")).
+Eval vm_compute in ("<<<M1621>>>" ++ check (runes_of_ascii "// 50% %s
+packet	a1
+    { zchar[
+// a // b
+// 50% %s
+007]
+T `it's`
+    ,@rightPad
+    // a // b
+    (
+'\x00')
+    o repeatCount , }  packet Logon {  }	Logon //x
+{ repeat // " ++ [128512]%N ++ runes_of_ascii " emoji
+uint16 u128
+    //
+    `a\`,
+falsey
+@calculatedFrom(""packet"" ) ,
+    } 	 ")).
+Eval vm_compute in ("<<<M3769>>>" ++ check (runes_of_ascii "options { 
+float= 7 
+; }root packet
+	packetx {repeat Foo 
+    // " ++ [128512]%N ++ runes_of_ascii " emoji
+// packet A { u8 x, }
+  , 
+repeat
+
+// a // b
+// packet A { u8 x, }
+
+uint32	//	t
+As 
+, @rightPad ( '0'
+
+    )string_
+
+    As	`// not a comment`
+,zchar[
+7 ]
+    Z9_ ,
 	}
 
 ")).
-Eval vm_compute in ("<<<M1643>>>" ++ check (runes_of_ascii "packet zchar {
-    BodyLength x,// trailing space 
-    @rightPad('0')
-    match _x as x {
-        [""" ++ [128512]%N ++ runes_of_ascii """] : falsey,
-        65535 : chars,
-        0 : falsey,
-        [""packet""] : metadata,
-        0 : repeatCount,
-        00 : packetx,
-    },
-}
-
-packet crc {
-    match body as len {
-        7 : leftPad,
-        007 : x_y_z,
-        00 : x_y_z,
-        [0, 10, 10, 10] : calculatedFrom,
-        ""packet"" : calculatedFrom,
-    },
-    @leftPad('0')
-    @tag(4294967296)
-    match u128 as trueish {
-        3 : i64_,
-    },
-    char[255] o @lengthOf(leftPad) `u8 x,`,
-}
-
-MetaData o {
-    float roots,
-    x_y_z MetaDataX,
-    packetx zchar,
-}")).
-Eval vm_compute in ("<<<M42>>>" ++ check (runes_of_ascii "packet	BodyLength { repeat f32a Pad`// not a comment` ,
-// " ++ [128512]%N ++ runes_of_ascii " emoji
-// c
-}
-MetaData As { }options { crc
+Eval vm_compute in ("<<<M484>>>" ++ check (runes_of_ascii "root packet
+lengthOf {@calculatedFrom( ""\n"" ) @leftPad
+    ( '\x00'  ) @tag(65535 ) repeat lengthOf {repeat uint8 Z9_
+, repeat  f32
+BodyLength`crlf
+line`
+    , repeat i8i8 ,
     // packet A { u8 x, }
-    =
-""a\\""
-float= '\x00'
-    a1 // c
-= ' ';i8i8 =
-    4294967296
-}	packet u128 {
-// `tick` ""quote"" 'q'
-//
-match //x
-stringy as o{ ""`tick`""  : Foo  , [ 4294967296 ]	: x_y_z ,} ,zchar[ /// triple
-10 ] // `tick` ""quote"" 'q'
-Packet@lengthOf(u8x
-),
-@lengthOf(
-roots) // " ++ [27880; 37322]%N ++ runes_of_ascii "
-x
-    `// not a comment` , i64
-    asx @lengthOf( rootA ) , metadata ,
-i64_ @calculatedFrom(  ""\" ++ [233]%N ++ runes_of_ascii """ ) ,	@lengthOf(u128
-) repeat o `two words` , }
-")).
-Eval vm_compute in ("<<<M293>>>" ++ check (runes_of_ascii "root
-    packet
-//	t
-// c
-charz{
-f32 stringy // @lengthOf(
-, @rightPad ( '\x00'
-    ) metadata
-    { MetaDataX
-A
-    // `tick` ""quote"" 'q'
-    , }
-,
-repeat zchar[ 0/// triple
-] u8x , @calculatedFrom( // @lengthOf(
-""it's"")
-    match trueish as
-u128 { ""{,}"" :
-    stringy
-} ,}
-    packet Packet
-{char[ 3]  int @calculatedFrom( ""x y""
-) ,
-}
-MetaData Packet { u128 trueish `" ++ [28040; 24687; 31867; 22411]%N ++ runes_of_ascii "` , int8 pack,
-    // packet A { u8 x, }
-    zchar[ 00 //x
-] repeatCount `a\` ,
-    // c
-    }
-")).
-Eval vm_compute in ("<<<M2020>>>" ++ check (runes_of_ascii "// top
-options {
-    // c1
-    LittleEndian = true;
-}// c6a
-
-// c6b
-packet Sub {
-    // c9
-    u8 a,
-    @calculatedFrom(""CRC16"")
-    // c15
-    u64 SubSum,
-}// c19a
-
-// c19b
-root packet Frame {
-    // c23
-    u16 MsgType,// c26a
-    // c26b
-    u16 BodyLen @lengthOf(Body),
-    Sub Body,
-    string note,// c38
-    @calculatedFrom(""CRC16"")
-    // c41
-    u64 Checksum,
-    // c44
-    u8 tail,// c47a
-    // c47b
-}
-// c48")).
-Eval vm_compute in ("<<<M1457>>>" ++ check (runes_of_ascii "// top
-packet
-    // c0
-B
-    // c1
-{ // c2
-u8 // c3
-a // c4
-, } // c6
-root packet
-    // c8
-P {
-    // c10
-u8 K , // c13a
-  // c13b
-u64
-    // c14
-L // c15a
-  // c15b
-@lengthOf(
-    // c16
-Body // c17
-)
-    // c18
-, match // c20a
-  // c20b
-K // c21a
-  // c21b
-as // c22a
-  // c22b
-Body
-    // c23
-{ 1 : // c26a
-  // c26b
-B , // c28a
-  // c28b
-} , // c30
-}
-    // c31
-")).
-Eval vm_compute in ("<<<M2022>>>" ++ check (runes_of_ascii "packet charz {
-    repeat char[3] BodyLength,
-    As stringy,
-    match tag as uint8x {
-        //
-        [""it's"", 007, 4294967296] : uint8x,
-    },// a // b
-    @tag(0)
-    /// triple
-    repeat char[7] u,
-}
-
-// packet A { u8 x, }
-MetaData options1 {
-    Z9_ _x,
-}
-
-packet BodyLength {
-}
-
-MetaData chars {
-    float Foo,
-}")).
-Eval vm_compute in ("<<<M1503>>>" ++ check (runes_of_ascii "packet A {
-    u8 a,
-}
-packet B {
-    u16 b,
-}
-packet C {
-    u32 c,
-}
-root packet M {
-    u16 Kc, u16 Kb, u16 Ka,
-    match Kc as X {
-        9 : A,
-        10 : B,
-    },
-    match Kb as Y {
-        2 : C,
-        1 : A,
-    },
-    match Ka as Z {
-        1 : B,
-    },
-    A, B, C,
-}
-")).
-Eval vm_compute in ("<<<M579>>>" ++ check (runes_of_ascii "root packet tag { }  packet MetaDataX{char[007	]
-// c
-/// triple
-asx  @calculatedFrom( ""a\""b""
-) `say ""hi""`// " ++ [27880; 37322]%N ++ runes_of_ascii "
-,  @tag(4294967296 )
-    char[ char[1//x
-] packetx @calculatedFrom(""a\""b""
-    ) ,
-// " ++ [128512]%N ++ runes_of_ascii " emoji
-// a // b
-@calculatedFrom(""" ++ [233]%N ++ runes_of_ascii "t" ++ [233]%N ++ runes_of_ascii """  ) repeat pack // " ++ [27880; 37322]%N ++ runes_of_ascii "
-,
-    } // c")).
-Eval vm_compute in ("<<<M574>>>" ++ check (runes_of_ascii "root packet tag { }  packet MetaDataX{char[007	]
-// c
-/// triple
-asx  @calculatedFrom( ""a\""b""
-) `say ""hi""`// " ++ [27880; 37322]%N ++ runes_of_ascii "
-,  @tag(4294967296 ) )
-    char[1//x
-] packetx @calculatedFrom(""a\""b""
-    ) ,
-// " ++ [128512]%N ++ runes_of_ascii " emoji
-// a // b
-@calculatedFrom(""" ++ [233]%N ++ runes_of_ascii "t" ++ [233]%N ++ runes_of_ascii """  ) repeat pack // " ++ [27880; 37322]%N ++ runes_of_ascii "
-,
-    } // c")).
-Eval vm_compute in ("<<<M669>>>" ++ check (runes_of_ascii "root packet tag { }  packet MetaDataX{char[007	]
-// c
-/// triple
-asx  @calculatedFrom( ""a\""b""
-"") `say ""hi""`// " ++ [27880; 37322]%N ++ runes_of_ascii "
-,  @tag(4294967296 )
-    char[1//x
-] packetx @calculatedFrom(""a\""b""
-    ) ,
-// " ++ [128512]%N ++ runes_of_ascii " emoji
-// a // b
-@calculatedFrom(""" ++ [233]%N ++ runes_of_ascii "t" ++ [233]%N ++ runes_of_ascii """  ) repeat pack // " ++ [27880; 37322]%N ++ runes_of_ascii "
-,
-    } // c")).
-Eval vm_compute in ("<<<M630>>>" ++ check (runes_of_ascii "root packet tag { }  packet MetaDataX{char[007	]
-// c
-/// triple
-asx  @calculatedFrom( ""a\""b""
-) `say ""hi""`// " ++ [27880; 37322]%N ++ runes_of_ascii "
-,  @tag(4294967296 )
-    char[1//x
-] packetx @calculatedFrom(""a\""b""
-    ) ,
-// " ++ [128512]%N ++ runes_of_ascii " emoji
-// a // b
-@calculatedFrom(""" ++ [233]%N ++ runes_of_ascii "t" ++ [233]%N ++ runes_of_ascii """  repeat ) pack // " ++ [27880; 37322]%N ++ runes_of_ascii "
-,
-    } // c")).
-Eval vm_compute in ("<<<M506>>>" ++ check (runes_of_ascii "root packet tag { }  i64 MetaDataX{char[007	]
-// c
-/// triple
-asx  @calculatedFrom( ""a\""b""
-) `say ""hi""`// " ++ [27880; 37322]%N ++ runes_of_ascii "
-,  @tag(4294967296 )
-    char[1//x
-] packetx @calculatedFrom(""a\""b""
-    ) ,
-// " ++ [128512]%N ++ runes_of_ascii " emoji
-// a // b
-@calculatedFrom(""" ++ [233]%N ++ runes_of_ascii "t" ++ [233]%N ++ runes_of_ascii """  ) repeat pack // " ++ [27880; 37322]%N ++ runes_of_ascii "
-,
-    } // c")).
-Eval vm_compute in ("<<<M651>>>" ++ check (runes_of_ascii "root packet tag { }  packet MetaDataX{char[007	]
-// c
-/// triple
-asx  @calculatedFrom( ""a\""b""
-) `say ""hi""`// " ++ [27880; 37322]%N ++ runes_of_ascii "
-,  @tag(4294967296 )
-    char[1//x
-] packetx @calculatedFrom(""a\""b""
-    ) ,
-// " ++ [128512]%N ++ runes_of_ascii " emoji
-// a // b
-@calculatedFrom(""" ++ [233]%N ++ runes_of_ascii "t" ++ [233]%N ++ runes_of_ascii """  ) repeat pack // " ++ [27880; 37322]%N ++ runes_of_ascii "
-,")).
-Eval vm_compute in ("<<<M1722>>>" ++ check (runes_of_ascii "packet matchKey {
-    // packet A { u8 x, }
-    zchar[65535] Foo @calculatedFrom(""\n"") ``,
-    @tag(10)
-    repeat x Logon `
-        `,
-    @calculatedFrom(""it's"")
-    @rightPad()
-    zchar[255] lengthOf,
-    repeat uint8x `" ++ [233]%N ++ runes_of_ascii "`,
-}")).
-Eval vm_compute in ("<<<M1391>>>" ++ check (runes_of_ascii "// top
-packet // c0
-chars // c1
-{ // c2
-} // c3
-packet // c4
-MetaDataX // c5
-{ // c6
-@tag( // c7
-42 // c8
-) // c9
-i16 // c10
-string_ // c11
-, // c12
-repeat // c13
-x // c14
-`say ""hi""` // c15
-, // c16
-} // c17
-")).
-Eval vm_compute in ("<<<M277>>>" ++ check (runes_of_ascii "// " ++ [128512]%N ++ runes_of_ascii " emoji
-MetaData trueish {
-    // @lengthOf(
-    asx lengthOf
-    // a // b
-    , int8 // c
-float`it's`
-,}
-MetaData
-int{ int8
-charz ,} packet asx { o @calculatedFrom(
-""\" ++ [233]%N ++ runes_of_ascii """
-    ) ,
-}
-")).
-Eval vm_compute in ("<<<M420>>>" ++ check (runes_of_ascii "packet
-    // `tick` ""quote"" 'q'
-    crc
-// packet A { u8 x, }
-//	t
-{
-u32 a1 ,
-    // trailing space 
-    roots
-charz charz //
-`two words`,	}
-    MetaData int {
-} /// triple")).
-Eval vm_compute in ("<<<M450>>>" ++ check (runes_of_ascii "packet
-    // `tick` ""quote"" 'q'
-    crc
-// packet A { u8 x, }
-//	t
-{
-u32 a1 ,
-    // trailing space 
-    roots
-charz //
-`two words`,	}
-    MetaData int { {
-} /// triple")).
-Eval vm_compute in ("<<<M406>>>" ++ check (runes_of_ascii "packet
-    // `tick` ""quote"" 'q'
-    crc
-// packet A { u8 x, }
-//	t
-{
-u32 , a1
-    // trailing space 
-    roots
-charz //
-`two words`,	}
-    MetaData int {
-} /// triple")).
-Eval vm_compute in ("<<<M449>>>" ++ check (runes_of_ascii "packet
-    // `tick` ""quote"" 'q'
-    crc
-// packet A { u8 x, }
-//	t
-{
-u32 a1 ,
-    // trailing space 
-    roots
-charz //
-`two words`,	}
-    MetaData int 
-} /// triple")).
-Eval vm_compute in ("<<<M690>>>" ++ check (runes_of_ascii "root packet len // trailing space 
-{
-// " ++ [27880; 37322]%N ++ runes_of_ascii "
-//	t
-char[10
-] a" ++ [769]%N ++ runes_of_ascii "b	@lengthOf( o ) `crlf
-line`,
-    @rightPad
-( ' '
-) string
-    Header @calculatedFrom( ""a\\""
-    ), }
-")).
-Eval vm_compute in ("<<<M1781>>>" ++ check (runes_of_ascii "
-root  packet
-
-    matchKey 
-{
-zchar[3  ]
-
     pack
-@calculatedFrom(	""a	b""
-
-    )	`doc` ,
-
-}options
-
-{ 	 // c
-  	} MetaData
-
-A
-{int8 msg_type
-,
-}
+    BodyLength ,
+    } , }
 ")).
-Eval vm_compute in ("<<<M1789>>>" ++ check (runes_of_ascii "packet A {
-    match k as n {
-        [
-            ""a"", ""bb"", 007, ""d"", ""e"",
-            66, ""g"", ""h"", 9
-        ] : B,
-        2 : C,
+Eval vm_compute in ("<<<M3359>>>" ++ check (runes_of_ascii "// top
+options // c0
+{ // c1
+LittleEndian =
+    // c3
+true // c4a
+  // c4b
+; // c5
+} // c6
+root packet // c8a
+  // c8b
+P // c9a
+  // c9b
+{ repeat // c11a
+  // c11b
+char
+    // c12
+cs
+    // c13
+, u8 x , // c17a
+  // c17b
+} // c18
+")).
+Eval vm_compute in ("<<<M475>>>" ++ check (runes_of_ascii "packet pack	{ i32
+    _x `" ++ [28040; 24687; 31867; 22411]%N ++ runes_of_ascii "` , u8x {
+    //
+    i8 a1 ,}
+    , @calculatedFrom( ""a\""b""
+)
+    @tag(255
+    // @lengthOf(
+    )@calculatedFrom(	""" ++ [28040; 24687]%N ++ runes_of_ascii """
+// " ++ [128512]%N ++ runes_of_ascii " emoji
+// c
+) i32 Logon  ,} options { metadata =	""" ++ [28040; 24687]%N ++ runes_of_ascii """} /// triple")).
+Eval vm_compute in ("<<<M4376>>>" ++ check (runes_of_ascii "packet Pad {
+    repeat i32 Z9_,
+}
+
+MetaData u8x {
+    // " ++ [128512]%N ++ runes_of_ascii " emoji
+    msg_type Logon `a\`,
+}
+
+MetaData Pad {
+    //	t
+}
+
+options {
+    body = 4294967296;
+    a1 = 42;
+    asx = '\x00';
+    //
+    // @lengthOf(
+}")).
+Eval vm_compute in ("<<<M3568>>>" ++ check (runes_of_ascii "root packet roots {
+    repeat stringy uint8x,
+    repeatCount {
+        char metadata @lengthOf(_x) `crlf
+        line`,
+        //
+        repeatCount {
+            char msg_type,
+        },
     },
 }")).
-Eval vm_compute in ("<<<M1790>>>" ++ check (runes_of_ascii "packet A {
+Eval vm_compute in ("<<<M742>>>" ++ check (runes_of_ascii "root
+packet i64_ {  u8
+Logon ,asx
+@lengthOf( calculatedFrom ) `two words`
+, @rightPad ('\x00' ) @tag(4294967296 ) @leftPad ( )u32 roots
+    , repeat
+    // " ++ [128512]%N ++ runes_of_ascii " emoji
+    char[
+65535 ] Foo , }
+")).
+Eval vm_compute in ("<<<M621>>>" ++ check (runes_of_ascii "
+options { falsey
+//	t
+// packet A { u8 x, }
+=  ""a	b"" T =// c
+true
+} options {
+    u8x =false ;float =char[] /// triple
+;Header= true
+    msg_type
+    =int8 ;
+tag =3 ; // " ++ [128512]%N ++ runes_of_ascii " emoji
+}")).
+Eval vm_compute in ("<<<M1175>>>" ++ check (runes_of_ascii "
+packet
+    rootA
+{ repeat Packet BodyLength `line1
+line2` // " ++ [27880; 37322]%N ++ runes_of_ascii "
+,
+    i32 float , x_y_z
+    `" ++ [233]%N ++ runes_of_ascii "` , }packet //	t
+msg_type{ // a // b
+char[]rootA @lengthOf(
+    Z9_ ),  }
+")).
+Eval vm_compute in ("<<<M3446>>>" ++ check (runes_of_ascii "packet
+
+u128 
+{ 
+u8
+a	,
+} root
+packet Msg
+	{
+
+u8
+	k ,
+	u24{
+    u8
+	Hi,	u16 Lo	, }
+    , repeat
+i24 {  u32 q
+    ,}
+	,
+	u128	, u16
+	float32x
+
+,string 
+s	,
+
+    } ")).
+Eval vm_compute in ("<<<M597>>>" ++ check (runes_of_ascii "packet calculatedFrom
+{ }
+    MetaData Z9_{
+int8 Packet `100% of %d`
+    ,
+    }
+    MetaData T {
+i8i8
+    u128 `crlf
+line`
+    ,
+zchar[ 10
+] asx `u8 x,` , }")).
+Eval vm_compute in ("<<<M3384>>>" ++ check (runes_of_ascii "  options{
+
+    LittleEndian= true ;	}
+packet	B
+
+{ u8  a
+,string
+	s  ,
+}
+root 
+packet
+    P{u16  L @lengthOf(
+	B
+)
+
+    ,
+    B
+
+    ,
+
+u8 
+t , }
+")).
+Eval vm_compute in ("<<<M1972>>>" ++ check (runes_of_ascii "
+packet leftPad {
+@leftPad( '0')
+u32
+i64_ `100% of %d` `100% of %d` ,repeat// 50% %s
+i8 chars
+    ,
+} MetaData
+    f32a
+{ // packet A { u8 x, }
+}")).
+Eval vm_compute in ("<<<M2118>>>" ++ check (runes_of_ascii "MetaData BodyLength
+{ int8 Foo
+, string
+    MetaDataX , float zchar ,pack options1
+' 'asx string_, }
+packet u8x {Foo@lengthOf(charz )
+`" ++ [28040; 24687; 31867; 22411]%N ++ runes_of_ascii "`,  }
+")).
+Eval vm_compute in ("<<<M2201>>>" ++ check (runes_of_ascii "MetaData BodyLength
+{ int8 Foo
+, string
+    MetaDataX , float zchar ,pack options1
+,asx string_, }
+packet u8x {Foo@lengthOf(charz %)
+`" ++ [28040; 24687; 31867; 22411]%N ++ runes_of_ascii "`,  }
+")).
+Eval vm_compute in ("<<<M2137>>>" ++ check (runes_of_ascii "MetaData BodyLength
+{ int8 Foo
+, string
+    MetaDataX , float zchar ,pack options1
+,asx string_, packet
+} u8x {Foo@lengthOf(charz )
+`" ++ [28040; 24687; 31867; 22411]%N ++ runes_of_ascii "`,  }
+")).
+Eval vm_compute in ("<<<M2185>>>" ++ check (runes_of_ascii "MetaData BodyLength
+{ int8 Foo
+, string
+    MetaDataX , float zchar ,pack options1
+,asx string_, }
+packet u8x {Foo@lengthOf(charz )
+`" ++ [28040; 24687; 31867; 22411]%N ++ runes_of_ascii "`,  
+")).
+Eval vm_compute in ("<<<M2065>>>" ++ check (runes_of_ascii "MetaData BodyLength
+{ int8 
+, string
+    MetaDataX , float zchar ,pack options1
+,asx string_, }
+packet u8x {Foo@lengthOf(charz )
+`" ++ [28040; 24687; 31867; 22411]%N ++ runes_of_ascii "`,  }
+")).
+Eval vm_compute in ("<<<M3804>>>" ++ check (runes_of_ascii "packet A {
     match k as n {
         [
             1, ""bb"", 007, ""d"", 5,
-            ""f"", 7, ""h""
+            ""f"", 7, ""h"", 9
         ] : B,
         2 : C,
     },
 }")).
-Eval vm_compute in ("<<<M1458>>>" ++ check (runes_of_ascii "packet  B
-{
-    u8
-a
-
+Eval vm_compute in ("<<<M2022>>>" ++ check (runes_of_ascii "
+packet leftPad {
+@leftPad( '0')
+u32
+i64_ `100% of %d` ,repeat// 50% %s
+i8 chars
     ,
-}root
-    packet P {
-
-u8 K
-
-,
-	u64
-L
-
-@lengthOf(	Body ) ,	match
-K 
-as
-Body{
-	1
-:
-
-B,} 
-,
-}
-")).
-Eval vm_compute in ("<<<M1232>>>" ++ check (runes_of_ascii "root packet matchKey { zchar[
-// c
-3 ] pack @calculatedFrom( ""a	b"" ) `doc` , } options { } MetaData A { int8 msg_type , }")).
-Eval vm_compute in ("<<<M1264>>>" ++ check (runes_of_ascii "root packet matchKey { zchar[ 3 ] pack @calculatedFrom( ""a	b"" ) `doc` , } options { } MetaData A { int8
-// c
-msg_type , }")).
-Eval vm_compute in ("<<<M1772>>>" ++ check (runes_of_ascii "MetaData  float 
-{
-	float64	charz  `
-`, 
-} root
-	packet
-
-chars  
-  // c
-{
-@rightPad (
-    '0'
-
-)
-	Foo
+} MetaData
+    f32a
+{ // packet A { u8 x, }
+} }")).
+Eval vm_compute in ("<<<M1994>>>" ++ check (runes_of_ascii "
+packet leftPad {
+@leftPad( '0')
+u32
+i64_ `100% of %d` ,repeat// 50% %s
+i8 uint64
     ,
-    }
-")).
-Eval vm_compute in ("<<<M1597>>>" ++ check (runes_of_ascii "packet
-o
+} MetaData
+    f32a
+{ // packet A { u8 x, }
+}")).
+Eval vm_compute in ("<<<M1949>>>" ++ check (runes_of_ascii "
+packet leftPad {
+@leftPad{ '0')
+u32
+i64_ `100% of %d` ,repeat// 50% %s
+i8 chars
+    ,
+} MetaData
+    f32a
+{ // packet A { u8 x, }
+}")).
+Eval vm_compute in ("<<<M2265>>>" ++ check (runes_of_ascii "options
     {
-	repeat Logon 
-uint8x, }
-	options  // c
-	{asx 
-=
+x_y_z// " ++ [27880; 37322]%N ++ runes_of_ascii "
+= 10 ; }
+packet body {
+    @calculatedFrom(
+// trailing space 
+// " ++ [27880; 37322]%N ++ runes_of_ascii "
+)
+""1""	match T as Foo
+    {
+255 :T , }
+,}")).
+Eval vm_compute in ("<<<M2160>>>" ++ check (runes_of_ascii "MetaData BodyLength
+{ int8 Foo
+, string
+    MetaDataX , float zchar ,pack options1
+,asx string_, }
+packet u8x {Foo charz )
+`" ++ [28040; 24687; 31867; 22411]%N ++ runes_of_ascii "`,  }
+")).
+Eval vm_compute in ("<<<M2283>>>" ++ check (runes_of_ascii "options
+    {
+x_y_z// " ++ [27880; 37322]%N ++ runes_of_ascii "
+= 10 ; }
+packet body {
+    @calculatedFrom(
+// trailing space 
+// " ++ [27880; 37322]%N ++ runes_of_ascii "
+""1""
+)	match T  Foo
+    {
+255 :T , }
+,}")).
+Eval vm_compute in ("<<<M2414>>>" ++ check (runes_of_ascii "MetaData
+    calculatedFrom
+{ zchar[  10 ]
+    As`tab	here`,
+    }// trailing space 
+options  { roots ='\x00' ; f32 packet A
+{ }
+")).
+Eval vm_compute in ("<<<M2420>>>" ++ check (runes_of_ascii "MetaData
+    calculatedFrom
+{ zchar[  10 ]
+    As`tab	here`,
+    }// trailing space 
+options  { roots =; '\x00' } packet A
+{ }
+")).
+Eval vm_compute in ("<<<M4319>>>" ++ check (runes_of_ascii "
+MetaData 
+//
+      options1  {
+pack
+string_
+,i8
 
-zchar[ 3 ]
-    stringy  =
+Header ,
 
-    '\x00'
+float64
+	o
+, }root
+	packet u8x{
+    // " ++ [27880; 37322]%N ++ runes_of_ascii "
+      // a // b
+	} ")).
+Eval vm_compute in ("<<<M1830>>>" ++ check (runes_of_ascii "packet packet o {
+    roots `it's`
+// trailing space 
+//x
+, char[ 42
+    ]  A, // " ++ [27880; 37322]%N ++ runes_of_ascii "
+f64
+repeatCount
+    `crlf
+line`
+,}")).
+Eval vm_compute in ("<<<M1231>>>" ++ check (runes_of_ascii "options { lengthOf = ""`tick`"";repeatCount = 3 ;
+    metadata  =
+    255	;	i64_	= ' '
+    // packet A { u8 x, }
+    }
+")).
+Eval vm_compute in ("<<<M3543>>>" ++ check (runes_of_ascii "root packet MetaDataX {
+    @calculatedFrom(""CRC32"")
+    @calculatedFrom("""")
+    int64 Pad @lengthOf(u128) `" ++ [28040; 24687; 31867; 22411]%N ++ runes_of_ascii "`,
+}")).
+Eval vm_compute in ("<<<M1849>>>" ++ check (runes_of_ascii "packet o {
+    roots ,
+// trailing space 
+//x
+`it's` char[ 42
+    ]  A, // " ++ [27880; 37322]%N ++ runes_of_ascii "
+f64
+repeatCount
+    `crlf
+line`
+,}")).
+Eval vm_compute in ("<<<M4139>>>" ++ check (runes_of_ascii "packet matchKey {
+    @calculatedFrom(""// no comment"")
+    repeat rootA,// a // b
+    body ``,
+}
+
+packet u128 {
+}")).
+Eval vm_compute in ("<<<M3834>>>" ++ check (runes_of_ascii "
+
+  packet 
+A{ u16  // a
+      len 	 // b
+    @lengthOf( 	 // c
+
+  body  // d
+    )	// e
+`d` 	 // f
+    ,
+
 }
 
 ")).
-Eval vm_compute in ("<<<M459>>>" ++ check (runes_of_ascii "packet
-    // `tick` ""quote"" 'q'
-    crc
-// packet A { u8 x, }
-//	t
+Eval vm_compute in ("<<<M3621>>>" ++ check (runes_of_ascii "
+
+  packet
+pack
+{  repeat  charz,
+@leftPad
+    (
+
+) roots
+    @lengthOf( 
+Packet  )
+	`it's`
+    ,  //	t
+
+} ")).
+Eval vm_compute in ("<<<M1279>>>" ++ check (runes_of_ascii "packet
+leftPad //x
 {
-u32 a1 ,
-    // trailing space 
-    ")).
-Eval vm_compute in ("<<<M1875>>>" ++ check (runes_of_ascii "  MetaData
-float {	float64
-charz 
-`
-`  // c
-,
-    }
-    root
-packet 
-chars {	@rightPad
-('0' )Foo
-, }")).
-Eval vm_compute in ("<<<M26>>>" ++ check (runes_of_ascii "options // " ++ [27880; 37322]%N ++ runes_of_ascii "
-{Packet = 4294967296
-; i64_  = // c
-""1"" ;	Z9_ = ""abc"" ; options1 =
-""a\\""
-; o=0  ; }")).
-Eval vm_compute in ("<<<M1960>>>" ++ check (runes_of_ascii "
-packet pack	{
-repeat As
-	{
-
-char[
-65535 	 // trailing space 
-  ]
-crc `crlf
-line`
-
-,}
-
-,}
-")).
-Eval vm_compute in ("<<<M382>>>" ++ check (runes_of_ascii "root packet SimpleMessage {
-    uint16 MsgType `" ++ [28040; 24687; 31867; 22411]%N ++ runes_of_ascii "`,
-    string JsonBody `Json" ++ [23383; 31526; 20018; 28040; 24687; 20307]%N ++ runes_of_ascii "`,
+T `u8 x,` ,
+x @calculatedFrom(""1"")
+// a // b
+// trailing space 
+`` , // " ++ [128512]%N ++ runes_of_ascii " emoji
 }")).
-Eval vm_compute in ("<<<M1191>>>" ++ check (runes_of_ascii "MetaData float { float64 charz `
-`
-// c
-, } root packet chars { @rightPad ( '0' ) Foo , }")).
-Eval vm_compute in ("<<<M1402>>>" ++ check (runes_of_ascii "packet chars { } // c
-packet MetaDataX { @tag( 42 ) i16 string_ , repeat x `say ""hi""` , }")).
-Eval vm_compute in ("<<<M16>>>" ++ check (runes_of_ascii "packet Z9_// packet A { u8 x, }
-{ @tag(
-4294967296 )uint8x@calculatedFrom( ""abc"" ), }
+Eval vm_compute in ("<<<M4321>>>" ++ check (runes_of_ascii "options {
+}
 
-")).
-Eval vm_compute in ("<<<M1132>>>" ++ check (runes_of_ascii "packet metadata { Logon { // c
-A `" ++ [28040; 24687; 31867; 22411]%N ++ runes_of_ascii "` , tag o , } , zchar len `// not a comment` , }")).
-Eval vm_compute in ("<<<M860>>>" ++ check (runes_of_ascii "packet A {
-  match k as n {
-    [1, 22, 007, 4, 5, 66, 7, 8, 9] : B,
-    2 : C
-  },
-}")).
-Eval vm_compute in ("<<<M1369>>>" ++ check (runes_of_ascii "packet o { repeat Logon uint8x , } options { asx = zchar[ 3 ]
-// c
-stringy = '\x00' }")).
-Eval vm_compute in ("<<<M2025>>>" ++ check (runes_of_ascii "packet A {
-    match k as n {
-        [""a"", ""bb"", 007] : B,
-        2 : C,
+packet roots {
+    leftPad falsey,
+    char[1] u8x,
+    crc {
+        charz asx,
     },
 }")).
-Eval vm_compute in ("<<<M1330>>>" ++ check (runes_of_ascii "MetaData body { i64 pack `it's` , } packet stringy { int16 calculatedFrom
-// c
-, }")).
-Eval vm_compute in ("<<<M1607>>>" ++ check (runes_of_ascii "root packet repeatCount {
-    msg_type {
-        float64 lengthOf `" ++ [233]%N ++ runes_of_ascii "`,
-    },
-}")).
-Eval vm_compute in ("<<<M817>>>" ++ check (runes_of_ascii "packet A {
+Eval vm_compute in ("<<<M827>>>" ++ check (runes_of_ascii "options
+    {	pack= ""`tick`"" ; pack
+    =
+    0123456789 i64_ = // `tick` ""quote"" 'q'
+zchar[ 42]}
+")).
+Eval vm_compute in ("<<<M3379>>>" ++ check (runes_of_ascii "packet B {
+    u8 a,
+    string s,
+}
+root packet P {
+    u16 L @lengthOf(B),
+    B,
+    u8 t,
+}
+")).
+Eval vm_compute in ("<<<M4026>>>" ++ check (runes_of_ascii "
+packet
+	repeatCount 	 //	t
+
+{@calculatedFrom(""a\""b""  )
+int16
+	A
+
+, }
+options{u8x
+=' '
+;
+} ")).
+Eval vm_compute in ("<<<M1440>>>" ++ check (runes_of_ascii "packet
+T
+{ match repeatCount char	calculatedFrom
+{ [65535 ]	: As	,
+} ,}
+// trailing space 
+")).
+Eval vm_compute in ("<<<M1509>>>" ++ check (runes_of_ascii "packet
+T
+{ match repeatCount as	calculatedFrom
+{ [?65535 ]	: As	,
+} ,}
+// trailing space 
+")).
+Eval vm_compute in ("<<<M1479>>>" ++ check (runes_of_ascii "packet
+T
+{ match repeatCount as	calculatedFrom
+{ [65535 ]	: As	}
+, ,}
+// trailing space 
+")).
+Eval vm_compute in ("<<<M1761>>>" ++ check (runes_of_ascii "options{  lengthOf =//x
+i16;
+    BodyLength = 0 ; pack pack
+= false;
+    A = char[ 3 ] }")).
+Eval vm_compute in ("<<<M1827>>>" ++ check (runes_of_ascii "options{  lengthOf =//x
+i16;
+    BodyLength = 0 ; pack
+= false;
+    " ++ [252]%N ++ runes_of_ascii "ber = char[ 3 ] }")).
+Eval vm_compute in ("<<<M2941>>>" ++ check (runes_of_ascii "packet A {
   match k as n {
-    [1, 22, ""c c"", 4, 5] : B
+    [""a"", 22, ""c c"", 4, ""e"", 66, ""g""] : B
     2 : C
   },
 }")).
-Eval vm_compute in ("<<<M795>>>" ++ check (runes_of_ascii "packet A {
-  match k as n {
-    [1, 22, 007, 4] : B,
-    2 : C
-  },
-}")).
-Eval vm_compute in ("<<<M2098>>>" ++ check (runes_of_ascii "root packet P {
-    u8 s_u8,
-    repeat u8 r_u8,
-    u16 b_len,
-}")).
-Eval vm_compute in ("<<<M142>>>" ++ check (runes_of_ascii "options // `tick` ""quote"" 'q'
-{ repeatCount = 3/// triple
-}")).
-Eval vm_compute in ("<<<M1290>>>" ++ check (runes_of_ascii "packet x { @rightPad ( ) repeat roots // c
-Logon `doc` , }")).
-Eval vm_compute in ("<<<M1073>>>" ++ check (runes_of_ascii "// a
-MetaData M {} // b
-// c
-MetaData N {} // d
-// e")).
-Eval vm_compute in ("<<<M1998>>>" ++ check (runes_of_ascii "root packet u128 {
-    chars `it's`,
-    // c
-}")).
-Eval vm_compute in ("<<<M2044>>>" ++ check (runes_of_ascii "// top
-root packet pack {
-    // c3
-}// c4")).
-Eval vm_compute in ("<<<M240>>>" ++ check (runes_of_ascii "
-packet Header{ char[] body
-//x
-//
+Eval vm_compute in ("<<<M1515>>>" ++ check (runes_of_ascii "packet
+T
+{ match na" ++ [239]%N ++ runes_of_ascii "ve as	calculatedFrom
+{ [65535 ]	: As	,
+} ,}
+// trailing space 
+")).
+Eval vm_compute in ("<<<M1725>>>" ++ check (runes_of_ascii "options{  lengthOf //x
+i16;
+    BodyLength = 0 ; pack
+= false;
+    A = char[ 3 ] }")).
+Eval vm_compute in ("<<<M645>>>" ++ check (runes_of_ascii "root packet
+    _x {  zchar[ 10 ] A `tab	here`
+    // `tick` ""quote"" 'q'
+    , }
+")).
+Eval vm_compute in ("<<<M285>>>" ++ check (runes_of_ascii "// `tick` ""quote"" 'q'
+MetaData
+string_ { uint8
+asx
+    ,
+    string A //	t
 , }
 ")).
-Eval vm_compute in ("<<<M135>>>" ++ check (runes_of_ascii "MetaData pack { f64 A `{ , }` ,}
+Eval vm_compute in ("<<<M3259>>>" ++ check (runes_of_ascii "MetaData Foo { zchar[ 0 ] matchKey , // c
+} options { lengthOf = i32 u = 00 ; }")).
+Eval vm_compute in ("<<<M3566>>>" ++ check (runes_of_ascii "
+
+  packet i8i8
+{	repeat 
+    // " ++ [128512]%N ++ runes_of_ascii " emoji
+    char //x
+		int
+
+, 
+
+// " ++ [27880; 37322]%N ++ runes_of_ascii "
+	  } ")).
+Eval vm_compute in ("<<<M2922>>>" ++ check (runes_of_ascii "packet A {
+  match k as n {
+    [1, 22, 007, 4, 5, 66] : B
+    2 : C
+  },
+}")).
+Eval vm_compute in ("<<<M1794>>>" ++ check (runes_of_ascii "options{  lengthOf =//x
+i16;
+    BodyLength = 0 ; pack
+= false;
+    A =")).
+Eval vm_compute in ("<<<M1260>>>" ++ check (runes_of_ascii "// 50% %s
+options
+    // c
+    {
+    f32a = '\x00' ; lengthOf = ' ' ;}")).
+Eval vm_compute in ("<<<M2959>>>" ++ check (runes_of_ascii "packet A { Inner { match k as n { [1,22,007,4,5,66,7,8] : B, }, }, }")).
+Eval vm_compute in ("<<<M3037>>>" ++ check (runes_of_ascii "packet A {
+    B b `a
+
+b`,
+    B `a
+
+b`,
+    repeat B bs `a
+
+b`,
+}")).
+Eval vm_compute in ("<<<M786>>>" ++ check (runes_of_ascii "MetaData Packet
+{ Z9_ zchar , Packet falsey
+,
+    //x
+    } 	 ")).
+Eval vm_compute in ("<<<M1005>>>" ++ check (runes_of_ascii "// " ++ [128512]%N ++ runes_of_ascii " emoji
+packet
+tag { @leftPad(
+) repeat
+u64 metadata ,  }
+")).
+Eval vm_compute in ("<<<M3528>>>" ++ check (runes_of_ascii "options	{rootA
+=""abc"" /// triple
+	  ;  pack  = false ;
+	}
 
 ")).
-Eval vm_compute in ("<<<M41>>>" ++ check (runes_of_ascii "MetaData crc
-{ } // @lengthOf(")).
-Eval vm_compute in ("<<<M1612>>>" ++ check (runes_of_ascii "  packet
-    A  {
-	} 	 // c" ++ [160]%N)).
-Eval vm_compute in ("<<<M1172>>>" ++ check (runes_of_ascii "root packet pack {
-// c
-}")).
-Eval vm_compute in ("<<<M1381>>>" ++ check (runes_of_ascii "// c
-MetaData o { }")).
-Eval vm_compute in ("<<<M1021>>>" ++ check (runes_of_ascii "packet A {
-}
-// c" ++ [8287]%N)).
-Eval vm_compute in ("<<<M1029>>>" ++ check (runes_of_ascii "packet A {
-}// c" ++ [12]%N)).
-Eval vm_compute in ("<<<M2039>>>" ++ check (runes_of_ascii "  // c" ++ [12288]%N ++ runes_of_ascii "
+Eval vm_compute in ("<<<M4005>>>" ++ check (runes_of_ascii "root
+
+    packet
+	u128 {
+chars
+`doc`
+	,
+
+    }	// c
+ 
 ")).
-Eval vm_compute in ("<<<M1040>>>" ++ check (runes_of_ascii "// c" ++ [8203]%N)).
+Eval vm_compute in ("<<<M3952>>>" ++ check (runes_of_ascii "  packet
+
+x_y_z{ As
+@lengthOf(
+
+repeatCount
+
+    ),
+} ")).
+Eval vm_compute in ("<<<M544>>>" ++ check (runes_of_ascii "packet int { uint16  msg_type
+, }
+packet trueish { }
+")).
+Eval vm_compute in ("<<<M2798>>>" ++ check (runes_of_ascii "uint8 } ""abc"" } o true u16 ""a\\"" i16 match ""1"" 255")).
+Eval vm_compute in ("<<<M342>>>" ++ check (runes_of_ascii "/// triple
+options { BodyLength =
+    007
+; }
+
+")).
+Eval vm_compute in ("<<<M2257>>>" ++ check (runes_of_ascii "options
+    {
+x_y_z// " ++ [27880; 37322]%N ++ runes_of_ascii "
+= 10 ; }
+packet body")).
+Eval vm_compute in ("<<<M2739>>>" ++ check (runes_of_ascii "{ u64 roots char[ { false `crlf
+line` body")).
+Eval vm_compute in ("<<<M3060>>>" ++ check (runes_of_ascii "packet A {
+    u8 x `100% of %s %d %v`,
+}")).
+Eval vm_compute in ("<<<M433>>>" ++ check (runes_of_ascii "packet u8x
+    {} // packet A { u8 x, }")).
+Eval vm_compute in ("<<<M1970>>>" ++ check (runes_of_ascii "
+packet leftPad {
+@leftPad( '0')
+u32")).
+Eval vm_compute in ("<<<M2680>>>" ++ check (runes_of_ascii "options { a = 1; } options { a = 1; }")).
+Eval vm_compute in ("<<<M3873>>>" ++ check (runes_of_ascii "options {
+    u8x = false
+    // c
+}")).
+Eval vm_compute in ("<<<M2375>>>" ++ check (runes_of_ascii "MetaData
+Foo {Header //
+pack 	} 	 ")).
+Eval vm_compute in ("<<<M374>>>" ++ check (runes_of_ascii "packet len
+    { repeat  int ,}
+")).
+Eval vm_compute in ("<<<M1148>>>" ++ check (runes_of_ascii "options
+{ o = '0' // c
+} // " ++ [27880; 37322]%N)).
+Eval vm_compute in ("<<<M3104>>>" ++ check (runes_of_ascii "packet A {
+ u8 x `d" ++ [160]%N ++ runes_of_ascii "`, // c" ++ [160]%N ++ runes_of_ascii "
+}")).
+Eval vm_compute in ("<<<M3808>>>" ++ check (runes_of_ascii "MetaData MetaDataX {
+    //
+}")).
+Eval vm_compute in ("<<<M1097>>>" ++ check (runes_of_ascii "
+MetaData  o { }
+// a // b
+")).
+Eval vm_compute in ("<<<M2602>>>" ++ check (runes_of_ascii "packet A { x @leftPad(), }")).
+Eval vm_compute in ("<<<M1300>>>" ++ check (runes_of_ascii "root packet metadata{ }
+")).
+Eval vm_compute in ("<<<M4208>>>" ++ check (runes_of_ascii "
+
+  packet
+A {}
+// c" ++ [12288]%N ++ runes_of_ascii "
+")).
+Eval vm_compute in ("<<<M2710>>>" ++ check ([26; 65533; 14]%N ++ runes_of_ascii "c<" ++ [65533; 65533]%N ++ runes_of_ascii "d<>C" ++ [65533]%N ++ runes_of_ascii "V" ++ [600]%N ++ runes_of_ascii "P" ++ [1; 29]%N ++ runes_of_ascii "M/" ++ [65533; 65533]%N)).
+Eval vm_compute in ("<<<M927>>>" ++ check (runes_of_ascii "
+packet float
+{
+}
+")).
+Eval vm_compute in ("<<<M2667>>>" ++ check (runes_of_ascii "options { a = b; }")).
+Eval vm_compute in ("<<<M3153>>>" ++ check (runes_of_ascii "// c" ++ [12]%N ++ runes_of_ascii "
+packet A {
+}")).
+Eval vm_compute in ("<<<M3095>>>" ++ check (runes_of_ascii "packet A {
+}// c" ++ [12288]%N)).
+Eval vm_compute in ("<<<M2669>>>" ++ check (runes_of_ascii "options { = 1; }")).
+Eval vm_compute in ("<<<M2699>>>" ++ check (runes_of_ascii ".ykz<,`h_Jksz;")).
+Eval vm_compute in ("<<<M78>>>" ++ check (runes_of_ascii "options
+{ }")).
+Eval vm_compute in ("<<<M2750>>>" ++ check (runes_of_ascii "G3.A's7ff")).
+Eval vm_compute in ("<<<M2499>>>" ++ check (runes_of_ascii "@tag(1)")).
+Eval vm_compute in ("<<<M698>>>" ++ check (runes_of_ascii "// c
+")).
+Eval vm_compute in ("<<<M3111>>>" ++ check (runes_of_ascii "// c" ++ [5760]%N)).
+Eval vm_compute in ("<<<M2550>>>" ++ check (runes_of_ascii "[[]]")).
+Eval vm_compute in ("<<<M2551>>>" ++ check (runes_of_ascii "a	b")).
+Eval vm_compute in ("<<<M2692>>>" ++ check (runes_of_ascii "		")).
